@@ -6,7 +6,7 @@
    (induction on the fuel; the loop is re-entered at its start pc). *)
 From Coq Require Import ZArith NArith List Bool Lia ZifyBool ZifyNat ZifyN Floats.
 From EvyV Require Import Base Bytecode BytecodeProofs SymTab SymTabProofs Vm VmProofs Compile CompileProofs
-     CompileWfProofs CompileStmtProofs CompileJumpProofs CompileHoleProofs CompileCtlProofs.
+     CompileWfProofs CompileStmtProofs CompileJumpProofs CompileHoleProofs CompileSymProofs CompileCtlProofs.
 Require Import EvyV.Gen.Opcodes.
 Import ListNotations.
 Open Scope N_scope.
@@ -15,6 +15,27 @@ Open Scope N_scope.
 (* [None]: out of fuel, or an expression whose evaluation is undefined
    (eval_expr), or a statement outside the fragment; the boolean of a result
    says that a `break` is under way (the innermost enclosing loop ends it) *)
+(* the element of an iterable at position i: OpIterRange *)
+Definition iter_elem (iter : value) (i : nat) : option value :=
+  match iter with
+  | VArr l => nth_error l i
+  | VMap m => option_map (fun kv => VStr (fst kv)) (nth_error m i)
+  | VStr s => let runes := utf8_decode s in
+              if (i <? List.length runes)%nat then Some (VStr (utf8_encode (firstn 1 (skipn i runes)))) else None
+  | _ => None
+  end.
+(* None: the counter is not a non-negative integer (cannot happen from 0 by +1
+   below 2^53); Some None: the iteration is over *)
+Definition iter_next (iter : value) (idx : float) : option (option value) :=
+  match float_to_Z idx with
+  | Some z => if (z <? 0)%Z then None else Some (iter_elem iter (Z.to_nat z))
+  | None => None
+  end.
+
+(* OpStepRange's `stillGoing` *)
+Definition going (idx stp stop : float) : bool :=
+  (PrimFloat.ltb 0 stp && PrimFloat.ltb idx stop) || (PrimFloat.ltb stp 0 && PrimFloat.ltb stop idx).
+
 Fixpoint exec_s (fuel : nat) (s : stmt) (env : genv) {struct fuel} : option (genv * bool) :=
   match fuel with
   | O => None
@@ -25,6 +46,33 @@ Fixpoint exec_s (fuel : nat) (s : stmt) (env : genv) {struct fuel} : option (gen
       | SEmpty => Some (env, false)
       | SBreak => Some (env, true)
       | SIf c b elifs els => exec_c f (CCons c b elifs) els env
+      | SForStep None start stop step b =>
+          match eval_expr env stop, eval_expr env (match step with OSome e => e | ONoneE => ENum 1 end),
+                eval_expr env (match start with OSome e => e | ONoneE => ENum 0 end) with
+          | Some (VNum vstop), Some (VNum vstep), Some (VNum vstart) =>
+              if PrimFloat.eqb vstep 0 then None          (* ErrRangeValue *)
+              else exec_r f vstart vstep vstop b env
+          | _, _, _ => None
+          end
+      | SForStep (Some n) start stop step b =>
+          (* the loop variable: at top level a global, set to none first *)
+          match eval_expr env stop, eval_expr env (match step with OSome e => e | ONoneE => ENum 1 end),
+                eval_expr env (match start with OSome e => e | ONoneE => ENum 0 end) with
+          | Some (VNum vstop), Some (VNum vstep), Some (VNum vstart) =>
+              if PrimFloat.eqb vstep 0 then None
+              else exec_rv f n vstart vstep vstop b (upd env n VNone)
+          | _, _, _ => None
+          end
+      | SForIter (Some n) t e b =>
+          (* over the elements of an array / the characters of a string / the keys of a map *)
+          match t with
+          | TStr | TArr | TMap =>
+              match eval_expr env e with
+              | Some iter => exec_iv f n 0%float iter b (upd env n VNone)
+              | None => None
+              end
+          | _ => None
+          end
       | SWhile c b =>
           match eval_expr env c with
           | Some (VBool true) =>
@@ -53,6 +101,48 @@ with exec_l (fuel : nat) (l : slist) (env : genv) {struct fuel} : option (genv *
           end
       end
   end
+(* `for range start stop step` without loop variable, from index idx on *)
+with exec_r (fuel : nat) (idx stp stop : float) (b : slist) (env : genv) {struct fuel} : option (genv * bool) :=
+  match fuel with
+  | O => None
+  | S f =>
+      if going idx stp stop then
+        match exec_l f b env with
+        | Some (env1, false) => exec_r f (idx + stp)%float stp stop b env1
+        | Some (env1, true) => Some (env1, false)              (* break leaves the loop *)
+        | None => None
+        end
+      else Some (env, false)
+  end
+(* `for n := range start stop step`, from index idx on *)
+with exec_rv (fuel : nat) (n : str) (idx stp stop : float) (b : slist) (env : genv) {struct fuel} : option (genv * bool) :=
+  match fuel with
+  | O => None
+  | S f =>
+      if going idx stp stop then
+        match exec_l f b (upd env n (VNum idx)) with
+        | Some (env1, false) => exec_rv f n (idx + stp)%float stp stop b env1
+        | Some (env1, true) => Some (env1, false)
+        | None => None
+        end
+      else Some (env, false)
+  end
+(* `for n := range iter`, from (float) index idx on *)
+with exec_iv (fuel : nat) (n : str) (idx : float) (iter : value) (b : slist) (env : genv) {struct fuel} : option (genv * bool) :=
+  match fuel with
+  | O => None
+  | S f =>
+      match iter_next iter idx with
+      | Some (Some v) =>
+          match exec_l f b (upd env n v) with
+          | Some (env1, false) => exec_iv f n (idx + 1)%float iter b env1
+          | Some (env1, true) => Some (env1, false)
+          | None => None
+          end
+      | Some None => Some (env, false)
+      | None => None
+      end
+  end
 (* the condition chain of an if statement: the first true condition runs its block *)
 with exec_c (fuel : nat) (l : clist) (els : oslist) (env : genv) {struct fuel} : option (genv * bool) :=
   match fuel with
@@ -75,6 +165,13 @@ Fixpoint sdepth (s : stmt) : N :=
   | SDecl _ e | SAssign _ e => edepth e
   | SIf c b elifs els => N.max (edepth c) (N.max (ldepth b) (N.max (cdepth elifs) (match els with NoElse => 0 | Else eb => ldepth eb end)))
   | SWhile c b => N.max (edepth c) (ldepth b)
+  | SForStep _ start stop step b =>
+      (* the operands are evaluated on top of each other; the loop keeps 3 slots and pushes a flag *)
+      N.max (edepth stop)
+        (N.max (1 + edepth (match step with OSome e => e | ONoneE => ENum 1 end))
+           (N.max (2 + edepth (match start with OSome e => e | ONoneE => ENum 0 end))
+              (N.max 5 (3 + ldepth b))))
+  | SForIter _ _ e b => N.max (edepth e) (N.max 4 (2 + ldepth b))
   | _ => 0
   end
 with ldepth (l : slist) : N :=
@@ -119,6 +216,14 @@ Inductive LAY : option N -> stmt -> cstate -> cstate -> list Z -> list N -> Prop
     jbytes Jump (N.of_nat (List.length (ccode st))) jb ->
     cconsts st' = cconsts stb -> csym st' = csym st ->
     LAY brk (SWhile c b) st st' [] (seg_c ++ jf ++ seg_b ++ jb)
+| lay_forstep brk start stop step b st s1 s2 s3 st' seg1 seg2 seg3 seg_r :
+    efrag stop = true -> compile_expr true stop st = COk s1 -> ccode s1 = ccode st ++ seg1 ->
+    efrag (match step with OSome e => e | ONoneE => ENum 1 end) = true ->
+    compile_expr true (match step with OSome e => e | ONoneE => ENum 1 end) s1 = COk s2 -> ccode s2 = ccode s1 ++ seg2 ->
+    efrag (match start with OSome e => e | ONoneE => ENum 0 end) = true ->
+    compile_expr true (match start with OSome e => e | ONoneE => ENum 0 end) s2 = COk s3 -> ccode s3 = ccode s2 ++ seg3 ->
+    LAYR b s3 st' 3 StepRange seg_r ->
+    LAY brk (SForStep None start stop step b) st st' [] (seg1 ++ seg2 ++ seg3 ++ seg_r)
 | lay_if brk c b elifs els st ste st' js bs seg :
     LAYC brk true (CCons c b elifs) els st ste (N.of_nat (List.length (ccode st)) + N.of_nat (List.length seg)) js bs seg ->
     cconsts st' = cconsts ste -> csym st' = csym st ->
@@ -154,12 +259,26 @@ with LAYC : option N -> bool -> clist -> oslist -> cstate -> cstate -> N -> list
     LAYC brk fin (CCons c b t) els st st' End
          (Z.of_nat (List.length (ccode st) + List.length (seg_c ++ jf ++ seg_b)) :: js)
          (bs_b ++ bs_r)
-         (seg_c ++ jf ++ seg_b ++ je ++ seg_r).
+         (seg_c ++ jf ++ seg_b ++ je ++ seg_r)
+
+(* the loop part of a range loop, entered with the S slots of its state on the
+   stack: range op (no loop variable); exit jump to the OpDrop; body (its
+   breaks go to the OpDrop too); jump back to the range op; OpDrop S *)
+with LAYR : slist -> cstate -> cstate -> N -> opc -> list N -> Prop :=
+| layr rop S b s3 stx stb st' bs_b seg_b jf jb :
+    cconsts stx = cconsts s3 -> same_resolve (csym stx) (csym s3) ->
+    N.of_nat (List.length (ccode stx)) = N.of_nat (List.length (ccode s3)) + 6 ->
+    LAYL (Some (N.of_nat (List.length (ccode s3)) + N.of_nat (List.length ([N_of_opc rop; 0; 0] ++ jf ++ seg_b ++ jb)))) b stx stb bs_b seg_b ->
+    jbytes JumpOnFalse (N.of_nat (List.length (ccode s3)) + N.of_nat (List.length ([N_of_opc rop; 0; 0] ++ jf ++ seg_b ++ jb))) jf ->
+    jbytes Jump (N.of_nat (List.length (ccode s3))) jb ->
+    cconsts st' = cconsts stb -> csym st' = csym s3 ->
+    LAYR b s3 st' S rop ([N_of_opc rop; 0; 0] ++ jf ++ seg_b ++ jb ++ [N_of_opc Drop; 0; S]).
 
 Scheme LAY_mind := Induction for LAY Sort Prop
   with LAYL_mind := Induction for LAYL Sort Prop
-  with LAYC_mind := Induction for LAYC Sort Prop.
-Combined Scheme LAY_mutind from LAY_mind, LAYL_mind, LAYC_mind.
+  with LAYC_mind := Induction for LAYC Sort Prop
+  with LAYR_mind := Induction for LAYR Sort Prop.
+Combined Scheme LAY_mutind from LAY_mind, LAYL_mind, LAYC_mind, LAYR_mind.
 
 (* ---------- machine steps for the two jumps ---------- *)
 Lemma step_jof p vs pre post jf T b rest :
@@ -187,6 +306,101 @@ Proof. exists 0%nat. reflexivity. Qed.
 
 Lemma reaches_step p s s' : vm_step p s = Running s' -> reaches p s s'.
 Proof. intro H. exists 1%nat. simpl. rewrite H. reflexivity. Qed.
+
+Lemma step_steprange p vs pre post idx stp stop base :
+  pcode p = pre ++ [N_of_opc StepRange; 0; 0] ++ post -> ip vs = N.of_nat (List.length pre) ->
+  ostack vs = VNum idx :: VNum stp :: VNum stop :: base -> PrimFloat.eqb stp 0 = false ->
+  N.of_nat (List.length (locals vs)) + N.of_nat (List.length base) + 4 <= StackSize ->
+  vm_step p vs = Running {| ip := ip vs + 3;
+                            ostack := VBool (going idx stp stop) :: VNum (idx + stp)%float :: VNum stp :: VNum stop :: base;
+                            locals := locals vs; globals := globals vs |}.
+Proof.
+  intros HC HI HS HZ HR. rewrite (fetch_arg p vs StepRange 0 0 pre post HC HI eq_refl).
+  unfold exec. rewrite HS. cbn [List.length Nat.ltb Nat.leb zero_step]. rewrite HZ.
+  change (0 * 256 + 0) with 0. cbn [step_range N.eqb negb andb]. rewrite andb_false_r. fold (going idx stp stop).
+  unfold with_stack. cbn [List.length].
+  destruct (StackSize <? N.of_nat (List.length (locals vs)) + N.of_nat (S (S (S (S (List.length base)))))) eqn:E; [apply N.ltb_lt in E; lia|].
+  reflexivity.
+Qed.
+
+Lemma step_drop3 p vs pre post a b c base :
+  pcode p = pre ++ [N_of_opc Drop; 0; 3] ++ post -> ip vs = N.of_nat (List.length pre) ->
+  ostack vs = a :: b :: c :: base ->
+  vm_step p vs = Running {| ip := ip vs + 3; ostack := base; locals := locals vs; globals := globals vs |}.
+Proof.
+  intros HC HI HS. rewrite (fetch_arg p vs Drop 0 3 pre post HC HI eq_refl).
+  unfold exec. change (0 * 256 + 3) with 3. cbn [simple_effect]. rewrite HS. reflexivity.
+Qed.
+
+Lemma step_steprange_lv p vs pre post idx stp stop base :
+  pcode p = pre ++ [N_of_opc StepRange; 0; 1] ++ post -> ip vs = N.of_nat (List.length pre) ->
+  ostack vs = VNum idx :: VNum stp :: VNum stop :: base -> PrimFloat.eqb stp 0 = false ->
+  N.of_nat (List.length (locals vs)) + N.of_nat (List.length base) + 5 <= StackSize ->
+  vm_step p vs = Running {| ip := ip vs + 3;
+                            ostack := VBool (going idx stp stop) ::
+                                      (if going idx stp stop then [VNum idx] else []) ++ VNum (idx + stp)%float :: VNum stp :: VNum stop :: base;
+                            locals := locals vs; globals := globals vs |}.
+Proof.
+  intros HC HI HS HZ HR. rewrite (fetch_arg p vs StepRange 0 1 pre post HC HI eq_refl).
+  unfold exec. rewrite HS. cbn [List.length Nat.ltb Nat.leb zero_step]. rewrite HZ.
+  change (0 * 256 + 1) with 1. cbn [step_range N.eqb Pos.eqb negb andb]. rewrite andb_true_r. fold (going idx stp stop).
+  unfold with_stack. destruct (going idx stp stop); cbn [List.length app];
+    match goal with |- (if ?c then _ else _) = _ => destruct c eqn:E; [apply N.ltb_lt in E; lia|reflexivity] end.
+Qed.
+
+Lemma step_iterrange_lv p vs pre post idx iter base :
+  pcode p = pre ++ [N_of_opc IterRange; 0; 1] ++ post -> ip vs = N.of_nat (List.length pre) ->
+  ostack vs = VNum idx :: iter :: base ->
+  N.of_nat (List.length (locals vs)) + N.of_nat (List.length base) + 4 <= StackSize ->
+  forall r, iter_next iter idx = Some r ->
+  vm_step p vs = Running {| ip := ip vs + 3;
+                            ostack := match r with
+                                      | Some v => VBool true :: v :: VNum (idx + 1)%float :: iter :: base
+                                      | None => VBool false :: VNum (idx + 1)%float :: iter :: base
+                                      end;
+                            locals := locals vs; globals := globals vs |}.
+Proof.
+  intros HC HI HS HR r HN. rewrite (fetch_arg p vs IterRange 0 1 pre post HC HI eq_refl).
+  unfold exec. rewrite HS. cbn [List.length Nat.ltb Nat.leb]. change (0 * 256 + 1) with 1.
+  unfold iter_next in HN. unfold iter_range. destruct (float_to_Z idx) as [z|]; [|discriminate].
+  destruct (z <? 0)%Z; [discriminate|]. inversion HN; subst r. unfold iter_elem.
+  cbn [N.eqb Pos.eqb negb].
+  set (val := match iter with
+              | VArr l => nth_error l (Z.to_nat z)
+              | VMap m => option_map (fun kv => VStr (fst kv)) (nth_error m (Z.to_nat z))
+              | VStr s => if (Z.to_nat z <? List.length (utf8_decode s))%nat then Some (VStr (utf8_encode (firstn 1 (skipn (Z.to_nat z) (utf8_decode s))))) else None
+              | _ => None
+              end).
+  unfold with_stack. destruct val; cbn [List.length];
+    match goal with |- (if ?c then _ else _) = _ => destruct c eqn:E; [apply N.ltb_lt in E; lia|reflexivity] end.
+Qed.
+
+Lemma step_drop2 p vs pre post a b base :
+  pcode p = pre ++ [N_of_opc Drop; 0; 2] ++ post -> ip vs = N.of_nat (List.length pre) ->
+  ostack vs = a :: b :: base ->
+  vm_step p vs = Running {| ip := ip vs + 3; ostack := base; locals := locals vs; globals := globals vs |}.
+Proof.
+  intros HC HI HS. rewrite (fetch_arg p vs Drop 0 2 pre post HC HI eq_refl).
+  unfold exec. change (0 * 256 + 2) with 2. cbn [simple_effect]. rewrite HS. reflexivity.
+Qed.
+
+Lemma step_onone p vs pre post :
+  pcode p = pre ++ [N_of_opc ONone] ++ post -> ip vs = N.of_nat (List.length pre) ->
+  N.of_nat (List.length (locals vs)) + N.of_nat (List.length (ostack vs)) + 1 <= StackSize ->
+  vm_step p vs = Running {| ip := ip vs + 1; ostack := VNone :: ostack vs; locals := locals vs; globals := globals vs |}.
+Proof.
+  intros HC HI HR. rewrite (fetch_noarg p vs ONone pre post HC HI eq_refl).
+  rewrite (exec_pure p vs ONone 0 (ip vs + 1) 0 VNone); try reflexivity; simpl; lia.
+Qed.
+
+Lemma step_setglobal p vs pre post sg idx v rest :
+  jbytes SetGlobal idx sg -> pcode p = pre ++ sg ++ post -> ip vs = N.of_nat (List.length pre) ->
+  ostack vs = v :: rest -> (N.to_nat idx < List.length (globals vs))%nat ->
+  vm_step p vs = Running {| ip := ip vs + 3; ostack := rest; locals := locals vs; globals := set_nth (N.to_nat idx) v (globals vs) |}.
+Proof.
+  intros (hi & lo & -> & E) HC HI HS HL. rewrite (fetch_arg p vs SetGlobal hi lo pre post HC HI eq_refl).
+  rewrite E. apply exec_setglobal; assumption.
+Qed.
 
 (* ---------- what the simulation assumes about the machine state ---------- *)
 Definition slots_distinct (sym : symtab) : Prop :=
@@ -233,13 +447,15 @@ Lemma lay_frame :
   (forall brk s st st' bs seg, LAY brk s st st' bs seg -> (exists newc, cconsts st' = cconsts st ++ newc) /\ same_resolve (csym st') (csym st)) /\
   (forall brk l st st' bs seg, LAYL brk l st st' bs seg -> (exists newc, cconsts st' = cconsts st ++ newc) /\ same_resolve (csym st') (csym st)) /\
   (forall brk fin l els st st' End js bs seg, LAYC brk fin l els st st' End js bs seg ->
-     (exists newc, cconsts st' = cconsts st ++ newc) /\ same_resolve (csym st') (csym st)).
+     (exists newc, cconsts st' = cconsts st ++ newc) /\ same_resolve (csym st') (csym st)) /\
+  (forall b s3 st' S rop seg, LAYR b s3 st' S rop seg ->
+     (exists newc, cconsts st' = cconsts s3 ++ newc) /\ same_resolve (csym st') (csym s3)).
 Proof.
   apply LAY_mutind; intros;
     repeat match goal with
     | HF : efrag ?e = true, HC : compile_expr true ?e ?st = COk ?st1 |- _ =>
-        let nc := fresh "nc" in let K := fresh "K" in
-        destruct (efrag_consts e st st1 HF HC) as [(nc & K) _]; clear HC
+        let nc := fresh "nc" in let K := fresh "K" in let SE := fresh "SE" in
+        destruct (efrag_consts e st st1 HF HC) as [(nc & K) SE]; clear HC
     | H : (exists newc, _) /\ _ |- _ => let nb := fresh "nb" in let Kb := fresh "Kb" in let Sb := fresh "Sb" in destruct H as [(nb & Kb) Sb]
     end;
     (split; [first [exists []; rewrite app_nil_r; first [reflexivity|assumption] | chain_consts]
@@ -251,7 +467,8 @@ Lemma lay_len :
   (forall brk l st st' bs seg, LAYL brk l st st' bs seg ->
      N.of_nat (List.length (ccode st')) = N.of_nat (List.length (ccode st)) + N.of_nat (List.length seg)) /\
   (forall brk fin l els st st' End js bs seg, LAYC brk fin l els st st' End js bs seg ->
-     End = N.of_nat (List.length (ccode st)) + N.of_nat (List.length seg)).
+     End = N.of_nat (List.length (ccode st)) + N.of_nat (List.length seg)) /\
+  (forall b s3 st' S rop seg, LAYR b s3 st' S rop seg -> True).
 Proof.
   apply LAY_mutind; intros; auto.
   - simpl. lia.
@@ -269,35 +486,56 @@ Lemma layl_len : forall brk l st st' bs seg, LAYL brk l st st' bs seg ->
 Proof. apply lay_len. Qed.
 
 (* ---------- the simulation ---------- *)
-Definition mstate_ok (G : nat) (st : cstate) (env : genv) (vs : vmstate) : Prop :=
-  ostack vs = [] /\ locals vs = [] /\ globals_hold env (csym st) (globals vs) /\ slots_exist (csym st) (globals vs) /\
+(* base: what lies on the operand stack below the statement (the state of the
+   enclosing range loops) *)
+Definition mstate_ok (G : nat) (st : cstate) (env : genv) (base : list value) (vs : vmstate) : Prop :=
+  ostack vs = base /\ locals vs = [] /\ globals_hold env (csym st) (globals vs) /\ slots_exist (csym st) (globals vs) /\
   List.length (globals vs) = G.
 
 (* where the machine is after a statement: at the break target T if a break
    is under way, right after the code otherwise *)
 Definition SIMs (fuel : nat) (T : N) (s : stmt) (st st' : cstate) (seg : list N) : Prop :=
-  forall G env env' br, exec_s fuel s env = Some (env', br) -> forall p vs pre post,
+  forall G env env' br base, exec_s fuel s env = Some (env', br) -> forall p vs pre post,
     pcode p = pre ++ seg ++ post -> List.length pre = List.length (ccode st) -> consts_of p st' ->
-    ip vs = N.of_nat (List.length pre) -> mstate_ok G st env vs ->
-    sym_static (csym st) -> slots_distinct (csym st) -> sdepth s <= StackSize ->
-    exists vs', reaches p vs vs' /\ ip vs' = (if br then T else ip vs + N.of_nat (List.length seg)) /\ mstate_ok G st env' vs'.
+    ip vs = N.of_nat (List.length pre) -> mstate_ok G st env base vs ->
+    sym_static (csym st) -> slots_distinct (csym st) -> N.of_nat (List.length base) + sdepth s <= StackSize ->
+    exists vs', reaches p vs vs' /\ ip vs' = (if br then T else ip vs + N.of_nat (List.length seg)) /\ mstate_ok G st env' base vs'.
 
 Definition SIMl (fuel : nat) (T : N) (l : slist) (st st' : cstate) (seg : list N) : Prop :=
-  forall G env env' br, exec_l fuel l env = Some (env', br) -> forall p vs pre post,
+  forall G env env' br base, exec_l fuel l env = Some (env', br) -> forall p vs pre post,
     pcode p = pre ++ seg ++ post -> List.length pre = List.length (ccode st) -> consts_of p st' ->
-    ip vs = N.of_nat (List.length pre) -> mstate_ok G st env vs ->
-    sym_static (csym st) -> slots_distinct (csym st) -> ldepth l <= StackSize ->
-    exists vs', reaches p vs vs' /\ ip vs' = (if br then T else ip vs + N.of_nat (List.length seg)) /\ mstate_ok G st env' vs'.
+    ip vs = N.of_nat (List.length pre) -> mstate_ok G st env base vs ->
+    sym_static (csym st) -> slots_distinct (csym st) -> N.of_nat (List.length base) + ldepth l <= StackSize ->
+    exists vs', reaches p vs vs' /\ ip vs' = (if br then T else ip vs + N.of_nat (List.length seg)) /\ mstate_ok G st env' base vs'.
 
 Definition odepth (els : oslist) : N := match els with NoElse => 0 | Else eb => ldepth eb end.
 
 (* a chain ends at End, whichever block ran *)
 Definition SIMc (fuel : nat) (T : N) (l : clist) (els : oslist) (st st' : cstate) (End : N) (seg : list N) : Prop :=
-  forall G env env' br, exec_c fuel l els env = Some (env', br) -> forall p vs pre post,
+  forall G env env' br base, exec_c fuel l els env = Some (env', br) -> forall p vs pre post,
     pcode p = pre ++ seg ++ post -> List.length pre = List.length (ccode st) -> consts_of p st' ->
-    ip vs = N.of_nat (List.length pre) -> mstate_ok G st env vs ->
-    sym_static (csym st) -> slots_distinct (csym st) -> cdepth l <= StackSize -> odepth els <= StackSize ->
-    exists vs', reaches p vs vs' /\ ip vs' = (if br then T else End) /\ mstate_ok G st env' vs'.
+    ip vs = N.of_nat (List.length pre) -> mstate_ok G st env base vs ->
+    sym_static (csym st) -> slots_distinct (csym st) ->
+    N.of_nat (List.length base) + cdepth l <= StackSize -> N.of_nat (List.length base) + odepth els <= StackSize ->
+    exists vs', reaches p vs vs' /\ ip vs' = (if br then T else End) /\ mstate_ok G st env' base vs'.
+
+(* the loop part of a step range, entered with index / step / stop on the stack *)
+Definition SIMr (fuel : nat) (b : slist) (s3 st' : cstate) (seg : list N) : Prop :=
+  forall G env env' br idx stp stop base, exec_r fuel idx stp stop b env = Some (env', br) -> forall p vs pre post,
+    pcode p = pre ++ seg ++ post -> List.length pre = List.length (ccode s3) -> consts_of p st' ->
+    ip vs = N.of_nat (List.length pre) -> PrimFloat.eqb stp 0 = false ->
+    mstate_ok G s3 env (VNum idx :: VNum stp :: VNum stop :: base) vs ->
+    sym_static (csym s3) -> slots_distinct (csym s3) ->
+    N.of_nat (List.length base) + 4 <= StackSize -> N.of_nat (List.length base) + 3 + ldepth b <= StackSize ->
+    exists vs', reaches p vs vs' /\ ip vs' = ip vs + N.of_nat (List.length seg) /\ mstate_ok G s3 env' base vs'.
+
+Lemma exec_r_false : forall fuel idx stp stop b env env' br,
+  exec_r fuel idx stp stop b env = Some (env', br) -> br = false.
+Proof.
+  induction fuel as [|f IH]; intros idx stp stop b env env' br H; [discriminate|]. cbn [exec_r] in H.
+  destruct (going idx stp stop); [|inversion H; reflexivity].
+  destruct (exec_l f b env) as [[env1 [|]]|]; [inversion H; reflexivity|apply (IH _ _ _ _ _ _ _ H)|discriminate].
+Qed.
 
 Lemma store_global' env n v y sym (g : list value) :
   slots_distinct sym -> st_resolve n sym = Some y -> (N.to_nat (sidx y) < List.length g)%nat ->
@@ -312,22 +550,22 @@ Proof.
     pose proof (HD n m y ym HR HRm H) as ->. rewrite str_eqb_refl in E. discriminate.
 Qed.
 
-Lemma mstate_same G st st2 env vs : same_resolve (csym st2) (csym st) -> mstate_ok G st env vs -> mstate_ok G st2 env vs.
+Lemma mstate_same G st st2 env base vs : same_resolve (csym st2) (csym st) -> mstate_ok G st env base vs -> mstate_ok G st2 env base vs.
 Proof.
   intros HS (A & B & C & D & E). repeat split; auto; [eapply globals_hold_same; eauto|eapply slots_exist_same; eauto].
 Qed.
-Lemma mstate_same_back G st st2 env vs : same_resolve (csym st2) (csym st) -> mstate_ok G st2 env vs -> mstate_ok G st env vs.
+Lemma mstate_same_back G st st2 env base vs : same_resolve (csym st2) (csym st) -> mstate_ok G st2 env base vs -> mstate_ok G st env base vs.
 Proof.
-  intros HS H. apply (mstate_same G st2 st env vs); [intro n; rewrite HS; reflexivity|exact H].
+  intros HS H. apply (mstate_same G st2 st env base vs); [intro n; rewrite HS; reflexivity|exact H].
 Qed.
 
 (* an expression of the fragment evaluated by the machine, from an empty stack *)
-Lemma expr_runs G e st st1 seg_e env v p vs pre post :
+Lemma expr_runs G e st st1 seg_e env v base p vs pre post :
   efrag e = true -> compile_expr true e st = COk st1 -> ccode st1 = ccode st ++ seg_e ->
   eval_expr env e = Some v -> sym_static (csym st) ->
   pcode p = pre ++ seg_e ++ post -> consts_of p st1 -> ip vs = N.of_nat (List.length pre) ->
-  mstate_ok G st env vs -> edepth e <= StackSize ->
-  reaches p vs {| ip := ip vs + N.of_nat (List.length seg_e); ostack := [v]; locals := locals vs; globals := globals vs |}.
+  mstate_ok G st env base vs -> N.of_nat (List.length base) + edepth e <= StackSize ->
+  reaches p vs {| ip := ip vs + N.of_nat (List.length seg_e); ostack := v :: base; locals := locals vs; globals := globals vs |}.
 Proof.
   intros HF HC HSeg HE HS HP (more & HK) HI (M1 & M2 & M3 & M4 & M5) HD.
   destruct (compile_expr_correct e HF env st st1 v HC HE HS) as (_ & seg & newc & B & _ & D).
@@ -340,27 +578,28 @@ Qed.
 Theorem sim_all : forall fuel,
   (forall T s st st' bs seg, LAY (Some T) s st st' bs seg -> SIMs fuel T s st st' seg) /\
   (forall T l st st' bs seg, LAYL (Some T) l st st' bs seg -> SIMl fuel T l st st' seg) /\
-  (forall T l els st st' End js bs seg, LAYC (Some T) true l els st st' End js bs seg -> SIMc fuel T l els st st' End seg).
+  (forall T l els st st' End js bs seg, LAYC (Some T) true l els st st' End js bs seg -> SIMc fuel T l els st st' End seg) /\
+  (forall b s3 st' seg, LAYR b s3 st' 3 StepRange seg -> SIMr fuel b s3 st' seg).
 Proof.
-  induction fuel as [|f (IHs & IHl & IHc)].
-  - repeat split; intros; intros G env env' br HX; simpl in HX; discriminate.
-  - split; [|split].
-    + intros T s st st' bs seg HL. inversion HL; subst; intros G env env' br HX p vs pre post HP HLen HK HI HM HSS HSD HDp.
+  induction fuel as [|f (IHs & IHl & IHc & IHr)].
+  - repeat split; intros; intros G env env' br; intros; simpl in *; discriminate.
+  - split; [|split; [|split]].
+    + intros T s st st' bs seg HL. inversion HL; subst; intros G env env' br base HX p vs pre post HP HLen HK HI HM HSS HSD HDp.
       * (* assign *)
         cbn [exec_s] in HX. destruct (eval_expr env e) as [v|] eqn:HE; [|discriminate]. inversion HX; subst env' br.
         destruct (efrag_consts e st st1 H H0) as [(nc & K1) S1].
         assert (HK1 : consts_of p st1) by (destruct HK as (more & HK); exists more; rewrite HK, H5; reflexivity).
         cbn [sdepth] in HDp.
-        pose proof (expr_runs G e st st1 seg_e env v p vs pre (sg ++ post) H H0 H1 HE HSS
+        pose proof (expr_runs G e st st1 seg_e env v base p vs pre (sg ++ post) H H0 H1 HE HSS
                       ltac:(rewrite HP, <- !app_assoc; reflexivity) HK1 HI HM HDp) as R1.
-        set (vs1 := {| ip := ip vs + N.of_nat (List.length seg_e); ostack := [v]; locals := locals vs; globals := globals vs |}) in *.
+        set (vs1 := {| ip := ip vs + N.of_nat (List.length seg_e); ostack := v :: base; locals := locals vs; globals := globals vs |}) in *.
         destruct HM as (M1 & M2 & M3 & M4 & M5). destruct H4 as (hi & lo & -> & E4).
         pose proof (M4 n y H2) as HL4.
         eexists. split; [|split].
         -- eapply reaches_trans; [exact R1|]. apply reaches_step.
            rewrite (fetch_arg p vs1 SetGlobal hi lo (pre ++ seg_e) post);
              [|rewrite HP, <- !app_assoc; reflexivity|unfold vs1; simpl; rewrite HI, app_length; lia|reflexivity].
-           rewrite (exec_setglobal p vs1 _ _ v []); [reflexivity|reflexivity|unfold vs1; simpl; rewrite E4; exact HL4].
+           rewrite (exec_setglobal p vs1 _ _ v base); [reflexivity|reflexivity|unfold vs1; simpl; rewrite E4; exact HL4].
         -- simpl. rewrite app_length. simpl. lia.
         -- unfold mstate_ok. simpl. rewrite E4. repeat split; auto.
            ++ apply store_global'; auto.
@@ -384,17 +623,17 @@ Proof.
         destruct (eval_expr env c) as [[| [] | | | | |]|] eqn:HE; try discriminate.
         -- (* true: one more iteration *)
            destruct (exec_l f b env) as [[env1 brb]|] eqn:HXb; [|discriminate].
-           pose proof (expr_runs G c st st1 seg_c env (VBool true) p vs pre (jf ++ seg_b ++ jb ++ post) H H0 H1 HE HSS
+           pose proof (expr_runs G c st st1 seg_c env (VBool true) base p vs pre (jf ++ seg_b ++ jb ++ post) H H0 H1 HE HSS
                          ltac:(rewrite HP, <- !app_assoc; reflexivity) HK1 HI HM ltac:(lia)) as R1.
-           set (vs1 := {| ip := ip vs + N.of_nat (List.length seg_c); ostack := [VBool true]; locals := locals vs; globals := globals vs |}) in *.
-           pose proof (step_jof p vs1 (pre ++ seg_c) (seg_b ++ jb ++ post) jf _ true [] H6
+           set (vs1 := {| ip := ip vs + N.of_nat (List.length seg_c); ostack := VBool true :: base; locals := locals vs; globals := globals vs |}) in *.
+           pose proof (step_jof p vs1 (pre ++ seg_c) (seg_b ++ jb ++ post) jf _ true base H6
                          ltac:(rewrite HP, <- !app_assoc; reflexivity)
                          ltac:(unfold vs1; simpl; rewrite HI, app_length; lia) eq_refl) as R2.
-           set (vs2 := {| ip := ip vs1 + 3; ostack := []; locals := locals vs1; globals := globals vs1 |}) in *.
+           set (vs2 := {| ip := ip vs1 + 3; ostack := base; locals := locals vs1; globals := globals vs1 |}) in *.
            destruct HM as (M1 & M2 & M3 & M4 & M5).
-           assert (HM2 : mstate_ok G stx env vs2).
+           assert (HM2 : mstate_ok G stx env base vs2).
            { apply (mstate_same G st stx); [exact H3|]. unfold vs2, vs1; simpl. repeat split; auto. }
-           destruct (IHl _ b stx stb _ seg_b H5 G env env1 brb HXb p vs2 (pre ++ seg_c ++ jf) (jb ++ post)) as (vs3 & R3 & I3 & HM3).
+           destruct (IHl _ b stx stb _ seg_b H5 G env env1 brb base HXb p vs2 (pre ++ seg_c ++ jf) (jb ++ post)) as (vs3 & R3 & I3 & HM3).
            { rewrite HP, <- !app_assoc. reflexivity. }
            { rewrite !app_length, Ljf. apply Nat2N.inj. rewrite H4, H1, app_length, !Nat2N.inj_add, HLen. simpl. lia. }
            { exact HKb. }
@@ -414,9 +653,9 @@ Proof.
                          ltac:(rewrite HP, <- !app_assoc; reflexivity)
                          ltac:(rewrite I3; unfold vs2, vs1; simpl; rewrite HI, !app_length, Ljf; lia)) as R4.
               set (vs4 := {| ip := N.of_nat (List.length (ccode st)); ostack := ostack vs3; locals := locals vs3; globals := globals vs3 |}) in *.
-              assert (HM4 : mstate_ok G st env1 vs4).
+              assert (HM4 : mstate_ok G st env1 base vs4).
               { apply (mstate_same_back G st stx); [exact H3|]. destruct HM3 as (A3 & B3 & C3 & D3 & E3). unfold vs4; simpl. repeat split; auto. }
-              destruct (IHs _ _ _ _ _ _ HL G env1 env' br HX p vs4 pre post HP HLen HK) as (vs5 & R5 & I5 & HM5); auto.
+              destruct (IHs _ _ _ _ _ _ HL G env1 env' br base HX p vs4 pre post HP HLen HK) as (vs5 & R5 & I5 & HM5); auto.
               { unfold vs4; simpl. rewrite HLen. reflexivity. }
               exists vs5. split; [|split; [|exact HM5]].
               ** eapply reaches_trans; [exact R1|]. eapply reaches_trans; [apply reaches_step; exact R2|].
@@ -424,34 +663,85 @@ Proof.
               ** rewrite I5. unfold vs4; simpl. rewrite HI, HLen. reflexivity.
         -- (* false: leave the loop *)
            inversion HX; subst env' br.
-           pose proof (expr_runs G c st st1 seg_c env (VBool false) p vs pre (jf ++ seg_b ++ jb ++ post) H H0 H1 HE HSS
+           pose proof (expr_runs G c st st1 seg_c env (VBool false) base p vs pre (jf ++ seg_b ++ jb ++ post) H H0 H1 HE HSS
                          ltac:(rewrite HP, <- !app_assoc; reflexivity) HK1 HI HM ltac:(lia)) as R1.
-           set (vs1 := {| ip := ip vs + N.of_nat (List.length seg_c); ostack := [VBool false]; locals := locals vs; globals := globals vs |}) in *.
-           pose proof (step_jof p vs1 (pre ++ seg_c) (seg_b ++ jb ++ post) jf _ false [] H6
+           set (vs1 := {| ip := ip vs + N.of_nat (List.length seg_c); ostack := VBool false :: base; locals := locals vs; globals := globals vs |}) in *.
+           pose proof (step_jof p vs1 (pre ++ seg_c) (seg_b ++ jb ++ post) jf _ false base H6
                          ltac:(rewrite HP, <- !app_assoc; reflexivity)
                          ltac:(unfold vs1; simpl; rewrite HI, app_length; lia) eq_refl) as R2.
            eexists. split; [eapply reaches_trans; [exact R1|apply reaches_step; exact R2]|].
            destruct HM as (M1 & M2 & M3 & M4 & M5). split; [simpl; rewrite HI, HLen; reflexivity|].
            unfold mstate_ok, vs1; simpl. repeat split; auto.
+      * (* for range, step form: the operands, then the loop part *)
+        cbn [exec_s] in HX. cbn [sdepth] in HDp.
+        set (estep := match step with OSome e => e | ONoneE => ENum 1 end) in *.
+        set (estart := match start with OSome e => e | ONoneE => ENum 0 end) in *.
+        destruct (eval_expr env stop) as [[vstop| | | | | |]|] eqn:HE1; try discriminate.
+        destruct (eval_expr env estep) as [[vstep| | | | | |]|] eqn:HE2; try discriminate.
+        destruct (eval_expr env estart) as [[vstart| | | | | |]|] eqn:HE3; try discriminate.
+        destruct (PrimFloat.eqb vstep 0) eqn:HZ; [discriminate|].
+        pose proof (exec_r_false _ _ _ _ _ _ _ _ HX) as ->.
+        destruct (efrag_consts stop st s1 H H0) as [(n1 & K1) S1].
+        destruct (efrag_consts estep s1 s2 H2 H3) as [(n2 & K2) S2].
+        destruct (efrag_consts estart s2 s3 H5 H6) as [(n3 & K3) S3].
+        destruct (proj2 (proj2 (proj2 lay_frame)) _ _ _ _ _ _ H8) as [(nr & Kr) Sr].
+        assert (HK3 : consts_of p s3) by (apply (consts_of_prefix p s3 st' nr Kr HK)).
+        assert (HK2 : consts_of p s2) by (apply (consts_of_prefix p s2 s3 n3 K3 HK3)).
+        assert (HK1 : consts_of p s1) by (apply (consts_of_prefix p s1 s2 n2 K2 HK2)).
+        pose proof (expr_runs G stop st s1 seg1 env (VNum vstop) base p vs pre (seg2 ++ seg3 ++ seg_r ++ post) H H0 H1 HE1 HSS
+                      ltac:(rewrite HP, <- !app_assoc; reflexivity) HK1 HI HM ltac:(lia)) as R1.
+        set (vs1 := {| ip := ip vs + N.of_nat (List.length seg1); ostack := VNum vstop :: base; locals := locals vs; globals := globals vs |}) in *.
+        destruct HM as (M1 & M2 & M3 & M4 & M5).
+        assert (HM1 : mstate_ok G s1 env (VNum vstop :: base) vs1).
+        { unfold mstate_ok, vs1; simpl. rewrite S1. repeat split; auto. }
+        assert (HSS1 : sym_static (csym s1)) by (rewrite S1; exact HSS).
+        pose proof (expr_runs G estep s1 s2 seg2 env (VNum vstep) (VNum vstop :: base) p vs1 (pre ++ seg1) (seg3 ++ seg_r ++ post) H2 H3 H4 HE2 HSS1
+                      ltac:(rewrite HP, <- !app_assoc; reflexivity) HK2 ltac:(unfold vs1; simpl; rewrite HI, app_length; lia) HM1
+                      ltac:(cbn [List.length]; lia)) as R2.
+        set (vs2 := {| ip := ip vs1 + N.of_nat (List.length seg2); ostack := VNum vstep :: VNum vstop :: base; locals := locals vs1; globals := globals vs1 |}) in *.
+        assert (HM2 : mstate_ok G s2 env (VNum vstep :: VNum vstop :: base) vs2).
+        { unfold mstate_ok, vs2, vs1; simpl. rewrite S2, S1. repeat split; auto. }
+        assert (HSS2 : sym_static (csym s2)) by (rewrite S2, S1; exact HSS).
+        pose proof (expr_runs G estart s2 s3 seg3 env (VNum vstart) (VNum vstep :: VNum vstop :: base) p vs2 (pre ++ seg1 ++ seg2) (seg_r ++ post) H5 H6 H7 HE3 HSS2
+                      ltac:(rewrite HP, <- !app_assoc; reflexivity) HK3 ltac:(unfold vs2, vs1; simpl; rewrite HI, !app_length; lia) HM2
+                      ltac:(cbn [List.length]; lia)) as R3.
+        set (vs3 := {| ip := ip vs2 + N.of_nat (List.length seg3); ostack := VNum vstart :: VNum vstep :: VNum vstop :: base; locals := locals vs2; globals := globals vs2 |}) in *.
+        assert (HM3 : mstate_ok G s3 env (VNum vstart :: VNum vstep :: VNum vstop :: base) vs3).
+        { unfold mstate_ok, vs3, vs2, vs1; simpl. rewrite S3, S2, S1. repeat split; auto. }
+        destruct (IHr b s3 st' seg_r H8 G env env' false vstart vstep vstop base HX p vs3 (pre ++ seg1 ++ seg2 ++ seg3) post) as (vs4 & R4 & I4 & HM4).
+        { rewrite HP, <- !app_assoc. reflexivity. }
+        { rewrite !app_length, H7, H4, H1, !app_length, HLen. lia. }
+        { exact HK. }
+        { unfold vs3, vs2, vs1; simpl. rewrite HI, !app_length. lia. }
+        { exact HZ. }
+        { exact HM3. }
+        { rewrite S3, S2, S1; exact HSS. }
+        { rewrite S3, S2, S1; exact HSD. }
+        { lia. }
+        { lia. }
+        exists vs4. split; [|split].
+        -- eapply reaches_trans; [exact R1|]. eapply reaches_trans; [exact R2|]. eapply reaches_trans; [exact R3|exact R4].
+        -- rewrite I4. unfold vs3, vs2, vs1; simpl. rewrite !app_length. lia.
+        -- destruct HM4 as (A1 & A2 & A3 & A4 & A5). rewrite S3, S2, S1 in A3, A4. repeat split; auto.
       * (* if: the chain *)
         cbn [exec_s] in HX. cbn [sdepth] in HDp.
-        destruct (IHc _ _ _ _ _ _ _ _ _ H G env env' br HX p vs pre post HP HLen) as (vs' & R & I & HM'); auto.
+        destruct (IHc _ _ _ _ _ _ _ _ _ H G env env' br base HX p vs pre post HP HLen) as (vs' & R & I & HM'); auto.
         { destruct HK as (more & HK); exists more; rewrite HK, H0; reflexivity. }
         { cbn [cdepth]. lia. }
         { unfold odepth. lia. }
         exists vs'. split; [exact R|]. split; [rewrite I, HI, HLen; reflexivity|exact HM'].
-    + intros T l st st' bs seg HL. inversion HL; subst; intros G env env' br HX p vs pre post HP HLen HK HI HM HSS HSD HDp.
+    + intros T l st st' bs seg HL. inversion HL; subst; intros G env env' br base HX p vs pre post HP HLen HK HI HM HSS HSD HDp.
       * cbn [exec_l] in HX. inversion HX; subst. exists vs. split; [apply reaches_refl|]. split; [simpl; lia|exact HM].
       * cbn [exec_l] in HX. cbn [ldepth] in HDp.
         destruct (exec_s f s env) as [[env1 br1]|] eqn:HX1; [|discriminate].
         destruct (lay_frame) as (LFs & LFl & _). destruct (LFs _ _ _ _ _ _ H) as [(n1 & K1) S1]. destruct (LFl _ _ _ _ _ _ H1) as [(n2 & K2) S2].
         assert (HK1 : consts_of p st1) by (apply (consts_of_prefix p st1 st' n2 K2 HK)).
-        destruct (IHs _ s st st1 _ seg1 H G env env1 br1 HX1 p vs pre (seg2 ++ post)) as (vs1 & R1 & I1 & HM1); auto.
+        destruct (IHs _ s st st1 _ seg1 H G env env1 br1 base HX1 p vs pre (seg2 ++ post)) as (vs1 & R1 & I1 & HM1); auto.
         { rewrite HP, <- !app_assoc. reflexivity. }
         { lia. }
         destruct br1.
         -- inversion HX; subst env' br. exists vs1. split; [exact R1|]. split; [exact I1|exact HM1].
-        -- destruct (IHl _ t st1 st' _ seg2 H1 G env1 env' br HX p vs1 (pre ++ seg1) post) as (vs2 & R2 & I2 & HM2).
+        -- destruct (IHl _ t st1 st' _ seg2 H1 G env1 env' br base HX p vs1 (pre ++ seg1) post) as (vs2 & R2 & I2 & HM2).
            { rewrite HP, <- !app_assoc. reflexivity. }
            { rewrite app_length. apply Nat2N.inj. rewrite H0, Nat2N.inj_add, HLen. reflexivity. }
            { exact HK. }
@@ -462,17 +752,17 @@ Proof.
            { lia. }
            exists vs2. split; [eapply reaches_trans; eauto|]. split; [rewrite I2, I1, app_length; destruct br; [reflexivity|lia]|].
            apply (mstate_same_back G st st1); [exact S1|exact HM2].
-    + intros T l els st st' End js bs seg HL. inversion HL; subst; intros G env env' br HX p vs pre post HP HLen HK HI HM HSS HSD HDp HDo.
+    + intros T l els st st' End js bs seg HL. inversion HL; subst; intros G env env' br base HX p vs pre post HP HLen HK HI HM HSS HSD HDp HDo.
       * (* no more conditions, no else *)
         cbn [exec_c] in HX. inversion HX; subst. exists vs. split; [apply reaches_refl|]. split; [rewrite HI, HLen; reflexivity|exact HM].
       * (* the else block *)
         cbn [exec_c] in HX. unfold odepth in HDo.
-        match goal with HL0 : LAYL _ eb sty st' _ seg |- _ => destruct (IHl _ eb sty st' _ seg HL0 G env env' br HX p vs pre post HP) as (vs3 & R3 & I3 & HM3) end; auto; [congruence|apply (mstate_same G st sty); assumption|apply (sym_static_same (csym st)); assumption|apply (slots_distinct_same (csym st)); assumption|].
+        match goal with HL0 : LAYL _ eb sty st' _ seg |- _ => destruct (IHl _ eb sty st' _ seg HL0 G env env' br base HX p vs pre post HP) as (vs3 & R3 & I3 & HM3) end; auto; [congruence|apply (mstate_same G st sty); assumption|apply (sym_static_same (csym st)); assumption|apply (slots_distinct_same (csym st)); assumption|].
         exists vs3. split; [exact R3|]. split; [rewrite I3, HI, HLen; reflexivity|].
         apply (mstate_same_back G st sty); assumption.
       * (* a condition *)
         cbn [exec_c] in HX. cbn [cdepth] in HDp. cbn [jshape] in H7.
-        destruct (lay_frame) as (_ & LF & LFc). destruct (LF _ _ _ _ _ _ H5) as [(nb & Kb) Sb]. destruct (LFc _ _ _ _ _ _ _ _ _ _ H11) as [(nr & Kr) Sr].
+        destruct (lay_frame) as (_ & LF & LFc & _). destruct (LF _ _ _ _ _ _ H5) as [(nb & Kb) Sb]. destruct (LFc _ _ _ _ _ _ _ _ _ _ H11) as [(nr & Kr) Sr].
         destruct (efrag_consts c st st1 H H0) as [(nc & K1) S1].
         assert (HKb : consts_of p stb).
         { apply (consts_of_prefix p stb st' nr); [rewrite Kr, H8; reflexivity|exact HK]. }
@@ -481,17 +771,17 @@ Proof.
         pose proof (jbytes_len _ _ _ H6) as Ljf. pose proof (jbytes_len _ _ _ H7) as Lje.
         pose proof (layl_len _ _ _ _ _ _ H5) as LLb.
         destruct (eval_expr env c) as [[| [] | | | | |]|] eqn:HE; try discriminate.
-        -- pose proof (expr_runs G c st st1 seg_c env (VBool true) p vs pre (jf ++ seg_b ++ je ++ seg_r ++ post) H H0 H1 HE HSS
+        -- pose proof (expr_runs G c st st1 seg_c env (VBool true) base p vs pre (jf ++ seg_b ++ je ++ seg_r ++ post) H H0 H1 HE HSS
                          ltac:(rewrite HP, <- !app_assoc; reflexivity) HK1 HI HM ltac:(lia)) as R1.
-           set (vs1 := {| ip := ip vs + N.of_nat (List.length seg_c); ostack := [VBool true]; locals := locals vs; globals := globals vs |}) in *.
-           pose proof (step_jof p vs1 (pre ++ seg_c) (seg_b ++ je ++ seg_r ++ post) jf _ true [] H6
+           set (vs1 := {| ip := ip vs + N.of_nat (List.length seg_c); ostack := VBool true :: base; locals := locals vs; globals := globals vs |}) in *.
+           pose proof (step_jof p vs1 (pre ++ seg_c) (seg_b ++ je ++ seg_r ++ post) jf _ true base H6
                          ltac:(rewrite HP, <- !app_assoc; reflexivity)
                          ltac:(unfold vs1; simpl; rewrite HI, app_length; lia) eq_refl) as R2.
-           set (vs2 := {| ip := ip vs1 + 3; ostack := []; locals := locals vs1; globals := globals vs1 |}) in *.
+           set (vs2 := {| ip := ip vs1 + 3; ostack := base; locals := locals vs1; globals := globals vs1 |}) in *.
            destruct HM as (M1 & M2 & M3 & M4 & M5).
-           assert (HM2 : mstate_ok G stx env vs2).
+           assert (HM2 : mstate_ok G stx env base vs2).
            { apply (mstate_same G st stx); [exact H3|]. unfold vs2, vs1; simpl. repeat split; auto. }
-           destruct (IHl _ b stx stb _ seg_b H5 G env env' br HX p vs2 (pre ++ seg_c ++ jf) (je ++ seg_r ++ post)) as (vs3 & R3 & I3 & HM3).
+           destruct (IHl _ b stx stb _ seg_b H5 G env env' br base HX p vs2 (pre ++ seg_c ++ jf) (je ++ seg_r ++ post)) as (vs3 & R3 & I3 & HM3).
            { rewrite HP, <- !app_assoc. reflexivity. }
            { rewrite !app_length, Ljf. apply Nat2N.inj. rewrite H4, H1, app_length, !Nat2N.inj_add, HLen. simpl. lia. }
            { exact HKb. }
@@ -513,18 +803,18 @@ Proof.
                  eapply reaches_trans; [exact R3|apply reaches_step; exact R4].
               ** reflexivity.
               ** apply (mstate_same_back G st stx); [exact H3|]. destruct HM3 as (A3 & B3 & C3 & D3 & E3). simpl. repeat split; auto.
-        -- pose proof (expr_runs G c st st1 seg_c env (VBool false) p vs pre (jf ++ seg_b ++ je ++ seg_r ++ post) H H0 H1 HE HSS
+        -- pose proof (expr_runs G c st st1 seg_c env (VBool false) base p vs pre (jf ++ seg_b ++ je ++ seg_r ++ post) H H0 H1 HE HSS
                          ltac:(rewrite HP, <- !app_assoc; reflexivity) HK1 HI HM ltac:(lia)) as R1.
-           set (vs1 := {| ip := ip vs + N.of_nat (List.length seg_c); ostack := [VBool false]; locals := locals vs; globals := globals vs |}) in *.
-           pose proof (step_jof p vs1 (pre ++ seg_c) (seg_b ++ je ++ seg_r ++ post) jf _ false [] H6
+           set (vs1 := {| ip := ip vs + N.of_nat (List.length seg_c); ostack := VBool false :: base; locals := locals vs; globals := globals vs |}) in *.
+           pose proof (step_jof p vs1 (pre ++ seg_c) (seg_b ++ je ++ seg_r ++ post) jf _ false base H6
                          ltac:(rewrite HP, <- !app_assoc; reflexivity)
                          ltac:(unfold vs1; simpl; rewrite HI, app_length; lia) eq_refl) as R2.
            set (vs2 := {| ip := N.of_nat (List.length (ccode st)) + N.of_nat (List.length (seg_c ++ jf ++ seg_b ++ je));
-                          ostack := []; locals := locals vs1; globals := globals vs1 |}) in *.
+                          ostack := base; locals := locals vs1; globals := globals vs1 |}) in *.
            destruct HM as (M1 & M2 & M3 & M4 & M5).
-           assert (HM2 : mstate_ok G sty env vs2).
+           assert (HM2 : mstate_ok G sty env base vs2).
            { apply (mstate_same G st sty); [exact H9|]. unfold vs2, vs1; simpl. repeat split; auto. }
-           destruct (IHc _ t els sty st' End _ _ seg_r H11 G env env' br HX p vs2 (pre ++ seg_c ++ jf ++ seg_b ++ je) post) as (vs3 & R3 & I3 & HM3).
+           destruct (IHc _ t els sty st' End _ _ seg_r H11 G env env' br base HX p vs2 (pre ++ seg_c ++ jf ++ seg_b ++ je) post) as (vs3 & R3 & I3 & HM3).
            { rewrite HP, <- !app_assoc. reflexivity. }
            { assert (X : N.of_nat (List.length (ccode st1)) = N.of_nat (List.length (ccode st)) + N.of_nat (List.length seg_c)) by (rewrite H1, app_length; lia).
              apply Nat2N.inj. rewrite !app_length, Ljf, Lje. lia. }
@@ -539,6 +829,273 @@ Proof.
            ++ eapply reaches_trans; [exact R1|]. eapply reaches_trans; [apply reaches_step; exact R2|exact R3].
            ++ exact I3.
            ++ apply (mstate_same_back G st sty); [exact H9|exact HM3].
+    + intros b s3 st' seg HL. inversion HL; subst.
+      intros G env env' br idx stp stop base HX p vs pre post HP HLen HK HI HZ HM HSS HSD HD4 HDb.
+      cbn [exec_r] in HX.
+      set (sr := [N_of_opc StepRange; 0; 0]) in *. set (dr := [N_of_opc Drop; 0; 3]) in *.
+      set (Endp := N.of_nat (List.length (ccode s3)) + N.of_nat (List.length (sr ++ jf ++ seg_b ++ jb))) in *.
+      destruct (lay_frame) as (_ & LF & _). destruct (LF _ _ _ _ _ _ H2) as [(nb & Kb) Sb].
+      assert (HKb : consts_of p stb) by (destruct HK as (more & HK); exists more; rewrite HK, H5; reflexivity).
+      pose proof (jbytes_len _ _ _ H3) as Ljf. pose proof (jbytes_len _ _ _ H4) as Ljb.
+      destruct HM as (M1 & M2 & M3 & M4 & M5).
+      pose proof (step_steprange p vs pre (jf ++ seg_b ++ jb ++ dr ++ post) idx stp stop base
+                    ltac:(rewrite HP; unfold sr; rewrite <- !app_assoc; reflexivity) HI M1 HZ ltac:(rewrite M2; simpl; lia)) as R1.
+      set (vs1 := {| ip := ip vs + 3; ostack := VBool (going idx stp stop) :: VNum (idx + stp)%float :: VNum stp :: VNum stop :: base;
+                     locals := locals vs; globals := globals vs |}) in *.
+      set (base' := VNum (idx + stp)%float :: VNum stp :: VNum stop :: base) in *.
+      pose proof (step_jof p vs1 (pre ++ sr) (seg_b ++ jb ++ dr ++ post) jf _ (going idx stp stop) base' H3
+                    ltac:(rewrite HP, <- !app_assoc; reflexivity)
+                    ltac:(unfold vs1, sr; simpl; rewrite HI, app_length; simpl; lia) eq_refl) as R2.
+      (* the exit: OpDrop 3 *)
+      assert (EXIT : forall env2 vsd, ip vsd = Endp -> ostack vsd = base' -> locals vsd = [] ->
+                globals_hold env2 (csym s3) (globals vsd) -> slots_exist (csym s3) (globals vsd) -> List.length (globals vsd) = G ->
+                exists vs', reaches p vsd vs' /\ ip vs' = ip vs + N.of_nat (List.length (sr ++ jf ++ seg_b ++ jb ++ dr)) /\ mstate_ok G s3 env2 base vs').
+      { intros env2 vsd ID OD LD GD SD ND.
+        pose proof (step_drop3 p vsd (pre ++ sr ++ jf ++ seg_b ++ jb) post _ _ _ base
+                      ltac:(rewrite HP; unfold dr; rewrite <- !app_assoc; reflexivity)
+                      ltac:(rewrite ID; unfold Endp; rewrite !app_length, HLen, !Nat2N.inj_add; lia) OD) as RD.
+        eexists. split; [apply reaches_step; exact RD|]. split.
+        - simpl. rewrite ID, HI. unfold Endp, dr. rewrite !app_length, HLen. simpl. lia.
+        - unfold mstate_ok; simpl. repeat split; auto. }
+      destruct (going idx stp stop) eqn:HG.
+      * destruct (exec_l f b env) as [[env1 brb]|] eqn:HXb; [|discriminate].
+        set (vs2 := {| ip := ip vs1 + 3; ostack := base'; locals := locals vs1; globals := globals vs1 |}) in *.
+        assert (HM2 : mstate_ok G stx env base' vs2).
+        { apply (mstate_same G s3 stx); [exact H0|]. unfold vs2, vs1; simpl. repeat split; auto. }
+        destruct (IHl _ b stx stb _ seg_b H2 G env env1 brb base' HXb p vs2 (pre ++ sr ++ jf) (jb ++ dr ++ post)) as (vs3 & R3 & I3 & HM3).
+        { rewrite HP, <- !app_assoc. reflexivity. }
+        { rewrite !app_length, Ljf. apply Nat2N.inj. rewrite H1, !Nat2N.inj_add, HLen. unfold sr. simpl. lia. }
+        { exact HKb. }
+        { unfold vs2, vs1; cbn [ip]. rewrite HI, !app_length, Ljf. unfold sr. simpl. lia. }
+        { exact HM2. }
+        { apply (sym_static_same (csym s3)); assumption. }
+        { apply (slots_distinct_same (csym s3)); assumption. }
+        { unfold base'. cbn [List.length]. lia. }
+        pose proof (mstate_same_back G s3 stx env1 base' vs3 H0 HM3) as (B1 & B2 & B3 & B4 & B5).
+        destruct brb.
+        -- (* break: the machine is at the OpDrop *)
+           inversion HX; subst env' br.
+           destruct (EXIT env1 vs3 I3 B1 B2 B3 B4 B5) as (vs' & RE & IE & ME).
+           exists vs'. split; [|split; [exact IE|exact ME]].
+           eapply reaches_trans; [apply reaches_step; exact R1|]. eapply reaches_trans; [apply reaches_step; exact R2|].
+           eapply reaches_trans; [exact R3|exact RE].
+        -- pose proof (step_jump p vs3 (pre ++ sr ++ jf ++ seg_b) (dr ++ post) jb _ H4
+                         ltac:(rewrite HP, <- !app_assoc; reflexivity)
+                         ltac:(rewrite I3; unfold vs2, vs1; cbn [ip]; rewrite HI, !app_length, Ljf; unfold sr; simpl; lia)) as R4.
+           set (vs4 := {| ip := N.of_nat (List.length (ccode s3)); ostack := ostack vs3; locals := locals vs3; globals := globals vs3 |}) in *.
+           assert (HM4 : mstate_ok G s3 env1 base' vs4) by (unfold vs4, mstate_ok; simpl; repeat split; auto).
+           destruct (IHr b s3 st' _ HL G env1 env' br (idx + stp)%float stp stop base HX p vs4 pre post HP HLen HK) as (vs5 & R5 & I5 & HM5); auto.
+           { unfold vs4; simpl. rewrite HLen. reflexivity. }
+           exists vs5. split; [|split; [|exact HM5]].
+           ++ eapply reaches_trans; [apply reaches_step; exact R1|]. eapply reaches_trans; [apply reaches_step; exact R2|].
+              eapply reaches_trans; [exact R3|]. eapply reaches_trans; [apply reaches_step; exact R4|exact R5].
+           ++ rewrite I5. unfold vs4; simpl. rewrite HI, HLen. reflexivity.
+      * (* the range is exhausted *)
+        inversion HX; subst env' br.
+        set (vs2 := {| ip := Endp; ostack := base'; locals := locals vs1; globals := globals vs1 |}) in *.
+        destruct (EXIT env vs2 eq_refl eq_refl M2 M3 M4 M5) as (vs' & RE & IE & ME).
+        exists vs'. split; [|split; [exact IE|exact ME]].
+        eapply reaches_trans; [apply reaches_step; exact R1|]. eapply reaches_trans; [apply reaches_step; exact R2|exact RE].
+Qed.
+
+(* ---------- a step range WITH a loop variable (a global: top level only) ---------- *)
+(* the loop part, entered with index / step / stop on the stack; y is the slot
+   of the loop variable *)
+Definition LAYRV (rop : opc) (S : N) (b : slist) (y : symbol) (s3 st' : cstate) (seg : list N) : Prop :=
+  exists stx stb bs_b seg_b jf jb sg,
+    jbytes SetGlobal (sidx y) sg /\
+    cconsts stx = cconsts s3 /\ same_resolve (csym stx) (csym s3) /\
+    N.of_nat (List.length (ccode stx)) = N.of_nat (List.length (ccode s3)) + 9 /\
+    LAYL (Some (N.of_nat (List.length (ccode s3)) + N.of_nat (List.length ([N_of_opc rop; 0; 1] ++ jf ++ sg ++ seg_b ++ jb)))) b stx stb bs_b seg_b /\
+    jbytes JumpOnFalse (N.of_nat (List.length (ccode s3)) + N.of_nat (List.length ([N_of_opc rop; 0; 1] ++ jf ++ sg ++ seg_b ++ jb))) jf /\
+    jbytes Jump (N.of_nat (List.length (ccode s3))) jb /\
+    cconsts st' = cconsts stb /\ csym st' = csym s3 /\
+    seg = [N_of_opc rop; 0; 1] ++ jf ++ sg ++ seg_b ++ jb ++ [N_of_opc Drop; 0; S].
+
+Lemma exec_rv_false : forall fuel n idx stp stop b env env' br,
+  exec_rv fuel n idx stp stop b env = Some (env', br) -> br = false.
+Proof.
+  induction fuel as [|f IH]; intros n idx stp stop b env env' br H; [discriminate|]. cbn [exec_rv] in H.
+  destruct (going idx stp stop); [|inversion H; reflexivity].
+  destruct (exec_l f b (upd env n (VNum idx))) as [[env1 [|]]|]; [inversion H; reflexivity|apply (IH _ _ _ _ _ _ _ _ H)|discriminate].
+Qed.
+
+Lemma sim_rv n b y s3 st' seg : LAYRV StepRange 3 b y s3 st' seg -> st_resolve n (csym s3) = Some y ->
+  forall fuel G env env' br idx stp stop base, exec_rv fuel n idx stp stop b env = Some (env', br) -> forall p vs pre post,
+    pcode p = pre ++ seg ++ post -> List.length pre = List.length (ccode s3) -> consts_of p st' ->
+    ip vs = N.of_nat (List.length pre) -> PrimFloat.eqb stp 0 = false ->
+    mstate_ok G s3 env (VNum idx :: VNum stp :: VNum stop :: base) vs ->
+    sym_static (csym s3) -> slots_distinct (csym s3) ->
+    N.of_nat (List.length base) + 5 <= StackSize -> N.of_nat (List.length base) + 3 + ldepth b <= StackSize ->
+    exists vs', reaches p vs vs' /\ ip vs' = ip vs + N.of_nat (List.length seg) /\ mstate_ok G s3 env' base vs'.
+Proof.
+  intros (stx & stb & bs_b & seg_b & jf & jb & sg & HSG & H & H0 & H1 & H2 & H3 & H4 & H5 & H6 & ->) HRy.
+  set (sr := [N_of_opc StepRange; 0; 1]) in *. set (dr := [N_of_opc Drop; 0; 3]) in *.
+  set (Endp := N.of_nat (List.length (ccode s3)) + N.of_nat (List.length (sr ++ jf ++ sg ++ seg_b ++ jb))) in *.
+  induction fuel as [|f IHr]; intros G env env' br idx stp stop base HX p vs pre post HP HLen HK HI HZ HM HSS HSD HD5 HDb; [discriminate|].
+  cbn [exec_rv] in HX.
+  destruct (lay_frame) as (_ & LF & _). destruct (LF _ _ _ _ _ _ H2) as [(nb & Kb) Sb].
+  assert (HKb : consts_of p stb) by (destruct HK as (more & HK); exists more; rewrite HK, H5; reflexivity).
+  pose proof (jbytes_len _ _ _ H3) as Ljf. pose proof (jbytes_len _ _ _ H4) as Ljb. pose proof (jbytes_len _ _ _ HSG) as Lsg.
+  destruct HM as (M1 & M2 & M3 & M4 & M5).
+  pose proof (step_steprange_lv p vs pre (jf ++ sg ++ seg_b ++ jb ++ dr ++ post) idx stp stop base
+                ltac:(rewrite HP; unfold sr; rewrite <- !app_assoc; reflexivity) HI M1 HZ ltac:(rewrite M2; simpl; lia)) as R1.
+  set (base' := VNum (idx + stp)%float :: VNum stp :: VNum stop :: base) in *.
+  assert (EXIT : forall env2 vsd, ip vsd = Endp -> ostack vsd = base' -> locals vsd = [] ->
+            globals_hold env2 (csym s3) (globals vsd) -> slots_exist (csym s3) (globals vsd) -> List.length (globals vsd) = G ->
+            exists vs', reaches p vsd vs' /\ ip vs' = ip vs + N.of_nat (List.length (sr ++ jf ++ sg ++ seg_b ++ jb ++ dr)) /\ mstate_ok G s3 env2 base vs').
+  { intros env2 vsd ID OD LD GD SD ND.
+    pose proof (step_drop3 p vsd (pre ++ sr ++ jf ++ sg ++ seg_b ++ jb) post _ _ _ base
+                  ltac:(rewrite HP; unfold dr; rewrite <- !app_assoc; reflexivity)
+                  ltac:(rewrite ID; unfold Endp; rewrite !app_length, HLen, !Nat2N.inj_add; lia) OD) as RD.
+    eexists. split; [apply reaches_step; exact RD|]. split.
+    - simpl. rewrite ID, HI. unfold Endp, dr. rewrite !app_length, HLen. simpl. lia.
+    - unfold mstate_ok; simpl. repeat split; auto. }
+  destruct (going idx stp stop) eqn:HG.
+  - destruct (exec_l f b (upd env n (VNum idx))) as [[env1 brb]|] eqn:HXb; [|discriminate].
+    cbn [app] in R1.
+    set (vs1 := {| ip := ip vs + 3; ostack := VBool true :: VNum idx :: base'; locals := locals vs; globals := globals vs |}) in *.
+    pose proof (step_jof p vs1 (pre ++ sr) (sg ++ seg_b ++ jb ++ dr ++ post) jf _ true (VNum idx :: base') H3
+                  ltac:(rewrite HP, <- !app_assoc; reflexivity)
+                  ltac:(unfold vs1, sr; cbn [ip]; rewrite HI, app_length; simpl; lia) eq_refl) as R2.
+    set (vs2 := {| ip := ip vs1 + 3; ostack := VNum idx :: base'; locals := locals vs1; globals := globals vs1 |}) in *.
+    pose proof (M4 n y HRy) as HLy.
+    pose proof (step_setglobal p vs2 (pre ++ sr ++ jf) (seg_b ++ jb ++ dr ++ post) sg (sidx y) (VNum idx) base' HSG
+                  ltac:(rewrite HP, <- !app_assoc; reflexivity)
+                  ltac:(unfold vs2, vs1, sr; cbn [ip]; rewrite HI, !app_length, Ljf; simpl; lia) eq_refl
+                  ltac:(unfold vs2, vs1; cbn [globals]; exact HLy)) as R3.
+    set (vs3 := {| ip := ip vs2 + 3; ostack := base'; locals := locals vs2; globals := set_nth (N.to_nat (sidx y)) (VNum idx) (globals vs2) |}) in *.
+    assert (HM3 : mstate_ok G stx (upd env n (VNum idx)) base' vs3).
+    { apply (mstate_same G s3 stx); [exact H0|]. unfold mstate_ok, vs3, vs2, vs1; cbn [ostack locals globals]. repeat split; auto.
+      - apply store_global'; auto.
+      - intros m ym HRm. rewrite set_nth_length. apply (M4 m ym HRm).
+      - rewrite set_nth_length. exact M5. }
+    destruct (proj1 (proj2 (sim_all f)) _ b stx stb _ seg_b H2 G (upd env n (VNum idx)) env1 brb base' HXb p vs3 (pre ++ sr ++ jf ++ sg) (jb ++ dr ++ post)) as (vs4 & R4 & I4 & HM4).
+    { rewrite HP, <- !app_assoc. reflexivity. }
+    { rewrite !app_length, Ljf, Lsg. apply Nat2N.inj. rewrite H1, !Nat2N.inj_add, HLen. unfold sr. simpl. lia. }
+    { exact HKb. }
+    { unfold vs3, vs2, vs1; cbn [ip]. rewrite HI, !app_length, Ljf, Lsg. unfold sr. simpl. lia. }
+    { exact HM3. }
+    { apply (sym_static_same (csym s3)); assumption. }
+    { apply (slots_distinct_same (csym s3)); assumption. }
+    { unfold base'. cbn [List.length]. lia. }
+    pose proof (mstate_same_back G s3 stx env1 base' vs4 H0 HM4) as (B1 & B2 & B3 & B4 & B5).
+    destruct brb.
+    + inversion HX; subst env' br.
+      destruct (EXIT env1 vs4 I4 B1 B2 B3 B4 B5) as (vs' & RE & IE & ME).
+      exists vs'. split; [|split; [exact IE|exact ME]].
+      eapply reaches_trans; [apply reaches_step; exact R1|]. eapply reaches_trans; [apply reaches_step; exact R2|].
+      eapply reaches_trans; [apply reaches_step; exact R3|]. eapply reaches_trans; [exact R4|exact RE].
+    + pose proof (step_jump p vs4 (pre ++ sr ++ jf ++ sg ++ seg_b) (dr ++ post) jb _ H4
+                    ltac:(rewrite HP, <- !app_assoc; reflexivity)
+                    ltac:(rewrite I4; unfold vs3, vs2, vs1; cbn [ip]; rewrite HI, !app_length, Ljf, Lsg; unfold sr; simpl; lia)) as R5.
+      set (vs5 := {| ip := N.of_nat (List.length (ccode s3)); ostack := ostack vs4; locals := locals vs4; globals := globals vs4 |}) in *.
+      assert (HM5 : mstate_ok G s3 env1 base' vs5) by (unfold vs5, mstate_ok; simpl; repeat split; auto).
+      destruct (IHr G env1 env' br (idx + stp)%float stp stop base HX p vs5 pre post HP HLen HK) as (vs6 & R6 & I6 & HM6); auto.
+      { unfold vs5; simpl. rewrite HLen. reflexivity. }
+      exists vs6. split; [|split; [|exact HM6]].
+      * eapply reaches_trans; [apply reaches_step; exact R1|]. eapply reaches_trans; [apply reaches_step; exact R2|].
+        eapply reaches_trans; [apply reaches_step; exact R3|]. eapply reaches_trans; [exact R4|].
+        eapply reaches_trans; [apply reaches_step; exact R5|exact R6].
+      * rewrite I6. unfold vs5; simpl. rewrite HI, HLen. reflexivity.
+  - inversion HX; subst env' br. cbn [app] in R1.
+    set (vs1 := {| ip := ip vs + 3; ostack := VBool false :: base'; locals := locals vs; globals := globals vs |}) in *.
+    pose proof (step_jof p vs1 (pre ++ sr) (sg ++ seg_b ++ jb ++ dr ++ post) jf _ false base' H3
+                  ltac:(rewrite HP, <- !app_assoc; reflexivity)
+                  ltac:(unfold vs1, sr; cbn [ip]; rewrite HI, app_length; simpl; lia) eq_refl) as R2.
+    set (vs2 := {| ip := Endp; ostack := base'; locals := locals vs1; globals := globals vs1 |}) in *.
+    destruct (EXIT env vs2 eq_refl eq_refl M2 M3 M4 M5) as (vs' & RE & IE & ME).
+    exists vs'. split; [|split; [exact IE|exact ME]].
+    eapply reaches_trans; [apply reaches_step; exact R1|]. eapply reaches_trans; [apply reaches_step; exact R2|exact RE].
+Qed.
+
+Lemma sim_iv n b y s3 st' seg : LAYRV IterRange 2 b y s3 st' seg -> st_resolve n (csym s3) = Some y ->
+  forall fuel G env env' br idx iter base, exec_iv fuel n idx iter b env = Some (env', br) -> forall p vs pre post,
+    pcode p = pre ++ seg ++ post -> List.length pre = List.length (ccode s3) -> consts_of p st' ->
+    ip vs = N.of_nat (List.length pre) ->
+    mstate_ok G s3 env (VNum idx :: iter :: base) vs ->
+    sym_static (csym s3) -> slots_distinct (csym s3) ->
+    N.of_nat (List.length base) + 4 <= StackSize -> N.of_nat (List.length base) + 2 + ldepth b <= StackSize ->
+    exists vs', reaches p vs vs' /\ ip vs' = ip vs + N.of_nat (List.length seg) /\ mstate_ok G s3 env' base vs'.
+Proof.
+  intros (stx & stb & bs_b & seg_b & jf & jb & sg & HSG & H & H0 & H1 & H2 & H3 & H4 & H5 & H6 & ->) HRy.
+  set (sr := [N_of_opc IterRange; 0; 1]) in *. set (dr := [N_of_opc Drop; 0; 2]) in *.
+  set (Endp := N.of_nat (List.length (ccode s3)) + N.of_nat (List.length (sr ++ jf ++ sg ++ seg_b ++ jb))) in *.
+  induction fuel as [|f IHr]; intros G env env' br idx iter base HX p vs pre post HP HLen HK HI HM HSS HSD HD5 HDb; [discriminate|].
+  cbn [exec_iv] in HX.
+  destruct (lay_frame) as (_ & LF & _). destruct (LF _ _ _ _ _ _ H2) as [(nb & Kb) Sb].
+  assert (HKb : consts_of p stb) by (destruct HK as (more & HK); exists more; rewrite HK, H5; reflexivity).
+  pose proof (jbytes_len _ _ _ H3) as Ljf. pose proof (jbytes_len _ _ _ H4) as Ljb. pose proof (jbytes_len _ _ _ HSG) as Lsg.
+  destruct HM as (M1 & M2 & M3 & M4 & M5).
+  destruct (iter_next iter idx) as [r|] eqn:HN; [|discriminate].
+  pose proof (step_iterrange_lv p vs pre (jf ++ sg ++ seg_b ++ jb ++ dr ++ post) idx iter base
+                ltac:(rewrite HP; unfold sr; rewrite <- !app_assoc; reflexivity) HI M1 ltac:(rewrite M2; simpl; lia) r HN) as R1.
+  set (base' := VNum (idx + 1)%float :: iter :: base) in *.
+  assert (EXIT : forall env2 vsd, ip vsd = Endp -> ostack vsd = base' -> locals vsd = [] ->
+            globals_hold env2 (csym s3) (globals vsd) -> slots_exist (csym s3) (globals vsd) -> List.length (globals vsd) = G ->
+            exists vs', reaches p vsd vs' /\ ip vs' = ip vs + N.of_nat (List.length (sr ++ jf ++ sg ++ seg_b ++ jb ++ dr)) /\ mstate_ok G s3 env2 base vs').
+  { intros env2 vsd ID OD LD GD SD ND.
+    pose proof (step_drop2 p vsd (pre ++ sr ++ jf ++ sg ++ seg_b ++ jb) post _ _ base
+                  ltac:(rewrite HP; unfold dr; rewrite <- !app_assoc; reflexivity)
+                  ltac:(rewrite ID; unfold Endp; rewrite !app_length, HLen, !Nat2N.inj_add; lia) OD) as RD.
+    eexists. split; [apply reaches_step; exact RD|]. split.
+    - simpl. rewrite ID, HI. unfold Endp, dr. rewrite !app_length, HLen. simpl. lia.
+    - unfold mstate_ok; simpl. repeat split; auto. }
+  destruct r as [v|].
+  - destruct (exec_l f b (upd env n v)) as [[env1 brb]|] eqn:HXb; [|discriminate].
+    set (vs1 := {| ip := ip vs + 3; ostack := VBool true :: v :: base'; locals := locals vs; globals := globals vs |}) in *.
+    pose proof (step_jof p vs1 (pre ++ sr) (sg ++ seg_b ++ jb ++ dr ++ post) jf _ true (v :: base') H3
+                  ltac:(rewrite HP, <- !app_assoc; reflexivity)
+                  ltac:(unfold vs1, sr; cbn [ip]; rewrite HI, app_length; simpl; lia) eq_refl) as R2.
+    set (vs2 := {| ip := ip vs1 + 3; ostack := v :: base'; locals := locals vs1; globals := globals vs1 |}) in *.
+    pose proof (M4 n y HRy) as HLy.
+    pose proof (step_setglobal p vs2 (pre ++ sr ++ jf) (seg_b ++ jb ++ dr ++ post) sg (sidx y) v base' HSG
+                  ltac:(rewrite HP, <- !app_assoc; reflexivity)
+                  ltac:(unfold vs2, vs1, sr; cbn [ip]; rewrite HI, !app_length, Ljf; simpl; lia) eq_refl
+                  ltac:(unfold vs2, vs1; cbn [globals]; exact HLy)) as R3.
+    set (vs3 := {| ip := ip vs2 + 3; ostack := base'; locals := locals vs2; globals := set_nth (N.to_nat (sidx y)) v (globals vs2) |}) in *.
+    assert (HM3 : mstate_ok G stx (upd env n v) base' vs3).
+    { apply (mstate_same G s3 stx); [exact H0|]. unfold mstate_ok, vs3, vs2, vs1; cbn [ostack locals globals]. repeat split; auto.
+      - apply store_global'; auto.
+      - intros m ym HRm. rewrite set_nth_length. apply (M4 m ym HRm).
+      - rewrite set_nth_length. exact M5. }
+    destruct (proj1 (proj2 (sim_all f)) _ b stx stb _ seg_b H2 G (upd env n v) env1 brb base' HXb p vs3 (pre ++ sr ++ jf ++ sg) (jb ++ dr ++ post)) as (vs4 & R4 & I4 & HM4).
+    { rewrite HP, <- !app_assoc. reflexivity. }
+    { rewrite !app_length, Ljf, Lsg. apply Nat2N.inj. rewrite H1, !Nat2N.inj_add, HLen. unfold sr. simpl. lia. }
+    { exact HKb. }
+    { unfold vs3, vs2, vs1; cbn [ip]. rewrite HI, !app_length, Ljf, Lsg. unfold sr. simpl. lia. }
+    { exact HM3. }
+    { apply (sym_static_same (csym s3)); assumption. }
+    { apply (slots_distinct_same (csym s3)); assumption. }
+    { unfold base'. cbn [List.length]. lia. }
+    pose proof (mstate_same_back G s3 stx env1 base' vs4 H0 HM4) as (B1 & B2 & B3 & B4 & B5).
+    destruct brb.
+    + inversion HX; subst env' br.
+      destruct (EXIT env1 vs4 I4 B1 B2 B3 B4 B5) as (vs' & RE & IE & ME).
+      exists vs'. split; [|split; [exact IE|exact ME]].
+      eapply reaches_trans; [apply reaches_step; exact R1|]. eapply reaches_trans; [apply reaches_step; exact R2|].
+      eapply reaches_trans; [apply reaches_step; exact R3|]. eapply reaches_trans; [exact R4|exact RE].
+    + pose proof (step_jump p vs4 (pre ++ sr ++ jf ++ sg ++ seg_b) (dr ++ post) jb _ H4
+                    ltac:(rewrite HP, <- !app_assoc; reflexivity)
+                    ltac:(rewrite I4; unfold vs3, vs2, vs1; cbn [ip]; rewrite HI, !app_length, Ljf, Lsg; unfold sr; simpl; lia)) as R5.
+      set (vs5 := {| ip := N.of_nat (List.length (ccode s3)); ostack := ostack vs4; locals := locals vs4; globals := globals vs4 |}) in *.
+      assert (HM5 : mstate_ok G s3 env1 base' vs5) by (unfold vs5, mstate_ok; simpl; repeat split; auto).
+      destruct (IHr G env1 env' br (idx + 1)%float iter base HX p vs5 pre post HP HLen HK) as (vs6 & R6 & I6 & HM6); auto.
+      { unfold vs5; simpl. rewrite HLen. reflexivity. }
+      exists vs6. split; [|split; [|exact HM6]].
+      * eapply reaches_trans; [apply reaches_step; exact R1|]. eapply reaches_trans; [apply reaches_step; exact R2|].
+        eapply reaches_trans; [apply reaches_step; exact R3|]. eapply reaches_trans; [exact R4|].
+        eapply reaches_trans; [apply reaches_step; exact R5|exact R6].
+      * rewrite I6. unfold vs5; simpl. rewrite HI, HLen. reflexivity.
+  - inversion HX; subst env' br.
+    set (vs1 := {| ip := ip vs + 3; ostack := VBool false :: base'; locals := locals vs; globals := globals vs |}) in *.
+    pose proof (step_jof p vs1 (pre ++ sr) (sg ++ seg_b ++ jb ++ dr ++ post) jf _ false base' H3
+                  ltac:(rewrite HP, <- !app_assoc; reflexivity)
+                  ltac:(unfold vs1, sr; cbn [ip]; rewrite HI, app_length; simpl; lia) eq_refl) as R2.
+    set (vs2 := {| ip := Endp; ostack := base'; locals := locals vs1; globals := globals vs1 |}) in *.
+    destruct (EXIT env vs2 eq_refl eq_refl M2 M3 M4 M5) as (vs' & RE & IE & ME).
+    exists vs'. split; [|split; [exact IE|exact ME]].
+    eapply reaches_trans; [apply reaches_step; exact R1|]. eapply reaches_trans; [apply reaches_step; exact R2|exact RE].
 Qed.
 
 (* ====================================================================== *)
@@ -552,6 +1109,7 @@ Fixpoint wfrag_stmt (s : stmt) : bool :=
   | SIf c b elifs els =>
       efrag c && wfrag_slist b && wfrag_clist elifs && match els with NoElse => true | Else eb => wfrag_slist eb end
   | SWhile c b => efrag c && wfrag_slist b
+  | SForStep None start stop step b => ofrag start && efrag stop && ofrag step && wfrag_slist b
   | _ => false
   end
 with wfrag_slist (l : slist) : bool :=
@@ -592,6 +1150,16 @@ Proof.
   exists [N_of_opc Jump; hi; lo]. split; [exists hi, lo; auto|reflexivity].
 Qed.
 
+Lemma emit_op_bytes o z st st' : has_operand o = true -> emit true o [z] st = COk st' ->
+  exists ins, make (N_of_opc o) [z] = Some ins /\ jbytes o (Z.to_N z) ins /\
+    st' = {| ccode := ccode st ++ ins; cconsts := cconsts st; csym := csym st; cbreaks := cbreaks st |}.
+Proof.
+  intros HO H. apply emit_ok in H. destruct H as (ins & HM & ->).
+  pose proof (make_some_range o z ins HO HM) as HR.
+  destruct (make_arg_bytes o z HO HR) as (hi & lo & HM' & E). rewrite HM in HM'. inversion HM'; subst.
+  exists [N_of_opc o; hi; lo]. split; [exact HM|]. split; [exists hi, lo; auto|reflexivity].
+Qed.
+
 Lemma patch_all_nil T s : patch_all true [] T s = COk s.
 Proof. reflexivity. Qed.
 
@@ -615,9 +1183,10 @@ Lemma lay_brk_patch T :
   (forall brk l st st' bs seg, LAYL brk l st st' bs seg -> brk = None ->
      PATCHED T bs st seg (fun seg' => LAYL (Some (Z.to_N T)) l st st' bs seg')) /\
   (forall brk fin l els st st' End js bs seg, LAYC brk fin l els st st' End js bs seg -> brk = None ->
-     PATCHED T bs st seg (fun seg' => LAYC (Some (Z.to_N T)) fin l els st st' End js bs seg')).
+     PATCHED T bs st seg (fun seg' => LAYC (Some (Z.to_N T)) fin l els st st' End js bs seg')) /\
+  (forall b s3 st' S rop seg, LAYR b s3 st' S rop seg -> True).
 Proof.
-  apply LAY_mutind; intros; subst brk; intros x x' pre post HC HLen HP.
+  apply LAY_mutind; intros; try exact I; subst brk; intros x x' pre post HC HLen HP.
   - rewrite patch_all_nil in HP. inversion HP; subst x'. eexists. repeat split; eauto. eapply lay_assign; eauto.
   - rewrite patch_all_nil in HP. inversion HP; subst x'. eexists. repeat split; eauto. constructor.
   - cbn [bshape] in b. destruct b as (h0 & l0 & ->).
@@ -626,6 +1195,7 @@ Proof.
     exists [N_of_opc Jump; hi; lo]. cbn [ccode cconsts csym cbreaks]. repeat split; auto.
     apply lay_break; auto. exists hi, lo. auto.
   - rewrite patch_all_nil in HP. inversion HP; subst x'. eexists. repeat split; eauto. eapply lay_while; eauto.
+  - rewrite patch_all_nil in HP. inversion HP; subst x'. eexists. repeat split; eauto. eapply lay_forstep; eauto.
   - destruct (H eq_refl x x' pre post HC HLen HP) as (seg' & C' & K' & S' & B' & L' & LY).
     exists seg'. repeat split; auto. eapply lay_if; eauto. rewrite L'. exact LY.
   - rewrite patch_all_nil in HP. inversion HP; subst x'. exists []. repeat split; auto. constructor.
@@ -769,6 +1339,212 @@ Proof.
   - cbn [with_breaks ccode]. rewrite C5, C. unfold jf. rewrite <- !app_assoc. reflexivity.
   - cbn [with_breaks cbreaks]. rewrite app_nil_r. exact B1.
   - cbn [with_breaks csym]. rewrite S5, Sb. exact S1.
+Qed.
+
+(* the loop part of `for range …` without loop variable *)
+Lemma for_loop_none_body rop S b st : for_loop true None rop S b st =
+  (emit true rop [0%Z] st >>= fun st2 =>
+   emit true JumpOnFalse [JumpPlaceholderZ] st2 >>= fun st3 =>
+   body_of true b (with_sym (st_push (csym st3)) (with_breaks [] st3)) >>= fun st4 =>
+   emit true Jump [pos_of st] (with_sym (st_pop (csym st4)) st4) >>= fun st5 =>
+   emit true Drop [S] st5 >>= fun st6 =>
+   patch true (pos_of st2) (pos_of st5) st6 >>= patch_all true (cbreaks st6) (pos_of st5) >>= fun st7 =>
+   COk (with_breaks (cbreaks st3) st7)).
+Proof.
+  destruct b; cbn [for_loop for_declare for_assign bind body_of];
+    destruct (emit true rop [0%Z] st); cbn [bind]; try reflexivity;
+    destruct (emit true JumpOnFalse [JumpPlaceholderZ] c); cbn [bind]; reflexivity.
+Qed.
+
+Lemma layr_steprange_ok b s3 st' : slist_lay b ->
+  for_loop true None StepRange 3 b s3 = COk st' -> gsym (csym s3) -> has_gb (csym s3) ->
+  exists seg_r, LAYR b s3 st' 3 StepRange seg_r /\ ccode st' = ccode s3 ++ seg_r /\
+                cbreaks st' = cbreaks s3 /\ csym st' = csym s3.
+Proof.
+  intros HB HC HG HGB. rewrite for_loop_none_body in HC.
+  destruct (emit true StepRange [0%Z] s3) as [st2|] eqn:E1; [|discriminate]. cbn [bind] in HC.
+  destruct (emit true JumpOnFalse [JumpPlaceholderZ] st2) as [st3|] eqn:E2; [|discriminate]. cbn [bind] in HC.
+  destruct (body_of true b (with_sym (st_push (csym st3)) (with_breaks [] st3))) as [st4|] eqn:E3; [|discriminate]. cbn [bind] in HC.
+  destruct (emit true Jump [pos_of s3] (with_sym (st_pop (csym st4)) st4)) as [st5|] eqn:E4; [|discriminate]. cbn [bind] in HC.
+  destruct (emit true Drop [3%Z] st5) as [st6|] eqn:E5; [|discriminate]. cbn [bind] in HC.
+  destruct (patch true (pos_of st2) (pos_of st5) st6) as [st7|] eqn:E6; [|discriminate]. cbn [bind] in HC.
+  destruct (patch_all true (cbreaks st6) (pos_of st5) st7) as [st8|] eqn:E7; [|discriminate]. cbn [bind] in HC.
+  inversion HC; subst st'; clear HC.
+  apply emit_ok in E1. destruct E1 as (ins1 & HM1 & ->).
+  assert (X1 : make (N_of_opc StepRange) [0%Z] = Some [N_of_opc StepRange; 0; 0]) by (vm_compute; reflexivity).
+  assert (Y1 : ins1 = [N_of_opc StepRange; 0; 0]) by congruence. subst ins1. clear X1 HM1.
+  apply emit_hole_bytes in E2; [|reflexivity]. destruct E2 as (h0 & l0 & ->). cbn [ccode cconsts csym cbreaks] in *.
+  set (sr := [N_of_opc StepRange; 0; 0]) in *.
+  destruct (HB _ _ E3) as (bs_b & seg_b & L & Cb & Bb & Sb); cbn [with_sym with_breaks csym];
+    [apply gsym_push; exact HG|apply has_gb_push; exact HGB|].
+  cbn [with_sym with_breaks ccode cconsts csym cbreaks app] in Cb, Bb, Sb.
+  apply emit_jump_bytes in E4. destruct E4 as (jb & HJB & ->). cbn [with_sym ccode cconsts csym cbreaks] in *.
+  apply emit_ok in E5. destruct E5 as (ins5 & HM5 & ->).
+  assert (X5 : make (N_of_opc Drop) [3%Z] = Some [N_of_opc Drop; 0; 3]) by (vm_compute; reflexivity).
+  assert (Y5 : ins5 = [N_of_opc Drop; 0; 3]) by congruence. subst ins5. clear X5 HM5.
+  cbn [ccode cconsts csym cbreaks] in *.
+  set (dr := [N_of_opc Drop; 0; 3]) in *.
+  pose proof (jbytes_len _ _ _ HJB) as Ljb.
+  assert (C6 : (ccode st4 ++ jb) ++ dr = (ccode s3 ++ sr) ++ N_of_opc JumpOnFalse :: h0 :: l0 :: (seg_b ++ jb ++ dr)).
+  { rewrite Cb, <- !app_assoc. reflexivity. }
+  assert (EP : pos_of {| ccode := ccode s3 ++ sr; cconsts := cconsts s3; csym := csym s3; cbreaks := cbreaks s3 |} = Z.of_nat (List.length (ccode s3 ++ sr)))
+    by reflexivity.
+  rewrite EP in E6.
+  match type of E6 with patch _ _ ?T0 ?s0 = _ =>
+    destruct (patch_bytes (ccode s3 ++ sr) _ h0 l0 (seg_b ++ jb ++ dr) T0 s0 st7 C6 E6) as (HT & hi & lo & EH & ->) end.
+  cbn [ccode cconsts csym cbreaks] in E7 |- *. rewrite Bb in E7.
+  set (jf := [N_of_opc JumpOnFalse; hi; lo]).
+  assert (Cx : ccode {| ccode := (ccode s3 ++ sr) ++ [N_of_opc JumpOnFalse; h0; l0]; cconsts := cconsts s3; csym := st_push (csym s3); cbreaks := [] |}
+               = (ccode s3 ++ sr) ++ [N_of_opc JumpOnFalse; h0; l0]) by reflexivity.
+  match type of E7 with patch_all _ _ ?T0 ?x = _ =>
+    destruct (proj1 (proj2 (lay_brk_patch T0)) _ _ _ _ _ _ L eq_refl x st8 ((ccode s3 ++ sr) ++ jf) (jb ++ dr)) as (seg_b' & C8 & K8 & S8 & B8 & L8 & LY8);
+      [cbn [ccode]; unfold jf; rewrite <- !app_assoc; reflexivity
+      |cbn [with_sym with_breaks ccode]; unfold jf; rewrite !app_length; reflexivity
+      |exact E7|] end.
+  cbn [ccode cconsts csym cbreaks] in C8, K8, S8, B8.
+  assert (LEN : N.of_nat (List.length (ccode s3)) + N.of_nat (List.length (sr ++ jf ++ seg_b' ++ jb)) = hi * 256 + lo).
+  { rewrite EH. unfold pos_of. cbn [ccode]. rewrite Cb.
+    rewrite ?app_length; simpl List.length; rewrite ?app_length; simpl List.length; lia. }
+  match type of LY8 with LAYL (Some ?X) _ _ _ _ _ => replace X with (N.of_nat (List.length (ccode s3)) + N.of_nat (List.length (sr ++ jf ++ seg_b' ++ jb))) in LY8 by (rewrite LEN, EH; reflexivity) end.
+  exists (sr ++ jf ++ seg_b' ++ jb ++ dr).
+  split; [|split; [|split]].
+  - refine (layr StepRange 3 b s3 _ st4 _ bs_b seg_b' jf jb _ _ _ LY8 _ _ _ _).
+    + reflexivity.
+    + apply same_resolve_push.
+    + cbn [with_sym with_breaks ccode]. unfold sr. rewrite !app_length. simpl. lia.
+    + exists hi, lo. split; [reflexivity|]. symmetry. exact LEN.
+    + rewrite pos_pcof, N2Z.id in HJB. exact HJB.
+    + cbn [with_breaks cconsts]. exact K8.
+    + cbn [with_breaks csym]. rewrite S8, Sb. apply pop_push_id. exact HG.
+  - cbn [with_breaks ccode]. rewrite C8. unfold jf. rewrite <- !app_assoc. reflexivity.
+  - reflexivity.
+  - cbn [with_breaks csym]. rewrite S8, Sb. apply pop_push_id. exact HG.
+Qed.
+
+(* `for n := range …` at top level: the prologue (define n; OpNone; OpSetGlobal)
+   and the loop part *)
+Lemma for_loop_lv_body n rop S b st : for_loop true (Some n) rop S b st =
+  (let (sym', y) := st_define n (csym st) in
+   emit true ONone [] (with_sym sym' st) >>= emit_set_var true y >>= fun st1 =>
+   emit true rop [1%Z] st1 >>= fun st2 =>
+   emit true JumpOnFalse [JumpPlaceholderZ] st2 >>= for_assign true (Some n) >>= fun st3 =>
+   body_of true b (with_sym (st_push (csym st3)) (with_breaks [] st3)) >>= fun st4 =>
+   emit true Jump [pos_of st1] (with_sym (st_pop (csym st4)) st4) >>= fun st5 =>
+   emit true Drop [S] st5 >>= fun st6 =>
+   patch true (pos_of st2) (pos_of st5) st6 >>= patch_all true (cbreaks st6) (pos_of st5) >>= fun st7 =>
+   COk (with_breaks (cbreaks st3) st7)).
+Proof. destruct b; cbn [for_loop for_declare bind body_of]; destruct (st_define n (csym st)); reflexivity. Qed.
+
+Lemma layrv_ok rop S n b s3 st' : range_op rop S -> slist_lay b -> top_ok s3 ->
+  for_loop true (Some n) rop (Z.of_N S) b s3 = COk st' ->
+  let sym' := fst (st_define n (csym s3)) in let y := snd (st_define n (csym s3)) in
+  top_ok (with_sym sym' s3) /\ sscp y = GlobalScope /\ st_resolve n sym' = Some y /\
+  exists sg seg_r,
+    jbytes SetGlobal (sidx y) sg /\
+    LAYRV rop S b y {| ccode := (ccode s3 ++ [N_of_opc ONone]) ++ sg; cconsts := cconsts s3; csym := sym'; cbreaks := cbreaks s3 |} st' seg_r /\
+    ccode st' = ccode s3 ++ [N_of_opc ONone] ++ sg ++ seg_r /\ cbreaks st' = cbreaks s3 /\ csym st' = sym'.
+Proof.
+  intros HRO HB HT HC. pose proof HT as (HO & HI & HN). rewrite for_loop_lv_body in HC.
+  assert (X1 : make (N_of_opc rop) [1%Z] = Some [N_of_opc rop; 0; 1]) by (destruct HRO as [[-> ->]|[-> ->]]; vm_compute; reflexivity).
+  assert (X5 : make (N_of_opc Drop) [Z.of_N S] = Some [N_of_opc Drop; 0; S]) by (destruct HRO as [[-> ->]|[-> ->]]; vm_compute; reflexivity).
+  destruct (st_define n (csym s3)) as [sym' y] eqn:ED. cbn [fst snd].
+  assert (HD1 : fst (st_define n (csym s3)) = sym') by (rewrite ED; reflexivity).
+  assert (HD2 : snd (st_define n (csym s3)) = y) by (rewrite ED; reflexivity).
+  destruct (define_frame n (csym s3)) as (F1 & F2 & F3). rewrite HD1 in F1, F2, F3.
+  pose proof (inv_define n (csym s3) HI) as HI'. rewrite HD1 in HI'.
+  pose proof (define_then_resolve (csym s3) n) as DR. rewrite HD1, HD2 in DR.
+  assert (HO' : outers sym' = []) by congruence.
+  destruct (sym_top_globals _ HO' HI' _ _ DR) as [SG SI].
+  assert (HT' : top_ok (with_sym sym' s3)) by (repeat split; cbn [with_sym csym]; auto; congruence).
+  destruct (top_gsym _ HT') as [HG' HGB']. cbn [with_sym csym] in HG', HGB'.
+  split; [exact HT'|]. split; [exact SG|]. split; [exact DR|].
+  destruct (emit true ONone [] (with_sym sym' s3)) as [sa|] eqn:Ea; [|discriminate]. cbn [bind] in HC.
+  destruct (emit_set_var true y sa) as [st1|] eqn:Eb; [|discriminate]. cbn [bind] in HC.
+  destruct (emit true rop [1%Z] st1) as [st2|] eqn:E1; [|discriminate]. cbn [bind] in HC.
+  destruct (emit true JumpOnFalse [JumpPlaceholderZ] st2) as [st2'|] eqn:E2; [|discriminate]. cbn [bind] in HC.
+  destruct (for_assign true (Some n) st2') as [st3|] eqn:E2a; [|discriminate]. cbn [bind] in HC.
+  destruct (body_of true b (with_sym (st_push (csym st3)) (with_breaks [] st3))) as [st4|] eqn:E3; [|discriminate]. cbn [bind] in HC.
+  destruct (emit true Jump [pos_of st1] (with_sym (st_pop (csym st4)) st4)) as [st5|] eqn:E4; [|discriminate]. cbn [bind] in HC.
+  destruct (emit true Drop [Z.of_N S] st5) as [st6|] eqn:E5; [|discriminate]. cbn [bind] in HC.
+  destruct (patch true (pos_of st2) (pos_of st5) st6) as [st7|] eqn:E6; [|discriminate]. cbn [bind] in HC.
+  destruct (patch_all true (cbreaks st6) (pos_of st5) st7) as [st8|] eqn:E7; [|discriminate]. cbn [bind] in HC.
+  inversion HC; subst st'; clear HC.
+  apply emit_ok in Ea. destruct Ea as (insa & HMa & ->).
+  assert (Xa : make (N_of_opc ONone) [] = Some [N_of_opc ONone]) by (vm_compute; reflexivity).
+  assert (Ya : insa = [N_of_opc ONone]) by congruence. subst insa. clear Xa HMa.
+  cbn [with_sym ccode cconsts csym cbreaks] in *.
+  unfold emit_set_var in Eb. rewrite SG in Eb. apply emit_op_bytes in Eb; [|reflexivity]. destruct Eb as (sg & HMG & HSG & ->).
+  rewrite N2Z.id in HSG. cbn [ccode cconsts csym cbreaks] in *.
+  apply emit_ok in E1. destruct E1 as (ins1 & HM1 & ->).
+  assert (Y1 : ins1 = [N_of_opc rop; 0; 1]) by congruence. subst ins1. clear X1 HM1.
+  apply emit_hole_bytes in E2; [|reflexivity]. destruct E2 as (h0 & l0 & ->). cbn [ccode cconsts csym cbreaks] in *.
+  unfold for_assign in E2a. cbn [csym] in E2a. rewrite DR in E2a. unfold emit_set_var in E2a. rewrite SG in E2a.
+  apply emit_op_bytes in E2a; [|reflexivity]. destruct E2a as (sg2 & HMG2 & _ & ->).
+  assert (sg2 = sg) by congruence. subst sg2. clear HMG2. cbn [ccode cconsts csym cbreaks] in *.
+  set (sr := [N_of_opc rop; 0; 1]) in *.
+  set (sa := {| ccode := (ccode s3 ++ [N_of_opc ONone]) ++ sg; cconsts := cconsts s3; csym := sym'; cbreaks := cbreaks s3 |}) in *.
+  destruct (HB _ _ E3) as (bs_b & seg_b & L & Cb & Bb & Sb); cbn [with_sym with_breaks csym];
+    [apply gsym_push; exact HG'|apply has_gb_push; exact HGB'|].
+  cbn [with_sym with_breaks ccode cconsts csym cbreaks app] in Cb, Bb, Sb.
+  apply emit_jump_bytes in E4. destruct E4 as (jb & HJB & ->). cbn [with_sym ccode cconsts csym cbreaks] in *.
+  apply emit_ok in E5. destruct E5 as (ins5 & HM5 & ->).
+  assert (Y5 : ins5 = [N_of_opc Drop; 0; S]) by congruence. subst ins5. clear X5 HM5.
+  cbn [ccode cconsts csym cbreaks] in *.
+  set (dr := [N_of_opc Drop; 0; S]) in *.
+  pose proof (jbytes_len _ _ _ HJB) as Ljb. pose proof (jbytes_len _ _ _ HSG) as Lsg.
+  assert (C6 : (ccode st4 ++ jb) ++ dr = (ccode sa ++ sr) ++ N_of_opc JumpOnFalse :: h0 :: l0 :: (sg ++ seg_b ++ jb ++ dr)).
+  { rewrite Cb. unfold sa. cbn [ccode]. rewrite <- !app_assoc. reflexivity. }
+  assert (EP : pos_of {| ccode := ccode sa ++ sr; cconsts := cconsts s3; csym := sym'; cbreaks := cbreaks s3 |} = Z.of_nat (List.length (ccode sa ++ sr)))
+    by reflexivity.
+  change (((ccode s3 ++ [N_of_opc ONone]) ++ sg) ++ sr) with (ccode sa ++ sr) in E6. rewrite EP in E6.
+  match type of E6 with patch _ _ ?T0 ?s0 = _ =>
+    destruct (patch_bytes (ccode sa ++ sr) _ h0 l0 (sg ++ seg_b ++ jb ++ dr) T0 s0 st7 C6 E6) as (HTz & hi & lo & EH & ->) end.
+  cbn [ccode cconsts csym cbreaks] in E7 |- *. rewrite Bb in E7.
+  set (jf := [N_of_opc JumpOnFalse; hi; lo]).
+  match type of E7 with patch_all _ _ ?T0 ?x = _ =>
+    destruct (proj1 (proj2 (lay_brk_patch T0)) _ _ _ _ _ _ L eq_refl x st8 (((ccode sa ++ sr) ++ jf) ++ sg) (jb ++ dr)) as (seg_b' & C8 & K8 & S8 & B8 & L8 & LY8);
+      [cbn [ccode]; unfold jf; rewrite <- !app_assoc; reflexivity
+      |cbn [with_sym with_breaks ccode]; unfold jf, sa; cbn [ccode]; rewrite !app_length; reflexivity
+      |exact E7|] end.
+  cbn [ccode cconsts csym cbreaks] in C8, K8, S8, B8.
+  assert (LEN : N.of_nat (List.length (ccode sa)) + N.of_nat (List.length (sr ++ jf ++ sg ++ seg_b' ++ jb)) = hi * 256 + lo).
+  { rewrite EH. unfold pos_of. cbn [ccode]. rewrite Cb. unfold sa. cbn [ccode].
+    rewrite ?app_length; simpl List.length; rewrite ?app_length; simpl List.length; lia. }
+  match type of LY8 with LAYL (Some ?X) _ _ _ _ _ => replace X with (N.of_nat (List.length (ccode sa)) + N.of_nat (List.length (sr ++ jf ++ sg ++ seg_b' ++ jb))) in LY8 by (rewrite LEN, EH; reflexivity) end.
+  assert (SF : st_pop (csym st4) = sym') by (rewrite Sb; apply pop_push_id; exact HG').
+  exists sg, (sr ++ jf ++ sg ++ seg_b' ++ jb ++ dr).
+  split; [exact HSG|]. split; [|split; [|split]].
+  - unfold LAYRV. match type of LY8 with LAYL _ _ ?stx _ _ _ => exists stx, st4, bs_b, seg_b', jf, jb, sg end.
+    split; [exact HSG|]. split; [reflexivity|]. split; [apply same_resolve_push|].
+    split; [cbn [with_sym with_breaks ccode]; unfold sa, sr; cbn [ccode]; rewrite !app_length, Lsg; simpl; lia|].
+    split; [exact LY8|]. split; [exists hi, lo; split; [reflexivity|symmetry; exact LEN]|].
+    split; [change (pos_of sa) with (pos_of sa) in HJB; rewrite pos_pcof, N2Z.id in HJB; exact HJB|].
+    split; [cbn [with_breaks cconsts]; exact K8|]. split; [cbn [with_breaks csym]; rewrite S8; exact SF|reflexivity].
+  - cbn [with_breaks ccode]. rewrite C8. unfold jf, sa. cbn [ccode]. rewrite <- !app_assoc. reflexivity.
+  - reflexivity.
+  - cbn [with_breaks csym]. rewrite S8. exact SF.
+Qed.
+
+Lemma lay_forstep_ok start stop step b st st' :
+  ofrag start = true -> efrag stop = true -> ofrag step = true -> slist_lay b ->
+  compile_stmt true (SForStep None start stop step b) st = COk st' -> gsym (csym st) -> has_gb (csym st) ->
+  LAYOK (SForStep None start stop step b) st st'.
+Proof.
+  intros F1 F2 F3 HB HC HG HGB. cbn [compile_stmt] in HC.
+  pose proof (ofrag_expr step 1 F3) as F3'. pose proof (ofrag_expr start 0 F1) as F1'.
+  destruct (compile_expr true stop st) as [s1|] eqn:E1; [|discriminate]. cbn [bind] in HC.
+  destruct (compile_expr true (match step with OSome e => e | ONoneE => ENum 1 end) s1) as [s2|] eqn:E2; [|discriminate]. cbn [bind] in HC.
+  destruct (compile_expr true (match start with OSome e => e | ONoneE => ENum 0 end) s2) as [s3|] eqn:E3; [|discriminate]. cbn [bind] in HC.
+  destruct (efrag_sl _ F2 st s1 E1) as (S1 & o1 & c1 & C1 & K1 & _). pose proof (efrag_breaks _ F2 _ _ E1) as B1.
+  destruct (efrag_sl _ F3' s1 s2 E2) as (S2 & o2 & c2 & C2 & K2 & _). pose proof (efrag_breaks _ F3' _ _ E2) as B2.
+  destruct (efrag_sl _ F1' s2 s3 E3) as (S3 & o3 & c3 & C3 & K3 & _). pose proof (efrag_breaks _ F1' _ _ E3) as B3.
+  destruct (layr_steprange_ok b s3 st' HB HC) as (seg_r & LR & CR & BR & SR);
+    [rewrite S3, S2, S1; exact HG|rewrite S3, S2, S1; exact HGB|].
+  exists [], (encode o1 ++ encode o2 ++ encode o3 ++ seg_r). split; [|split; [|split]].
+  - eapply lay_forstep; eauto.
+  - rewrite CR, C3, C2, C1, <- !app_assoc. reflexivity.
+  - rewrite app_nil_r. congruence.
+  - congruence.
 Qed.
 
 (* one `cond / block` (compileConditionalBlock): a builder for the head of a
@@ -949,7 +1725,10 @@ Proof.
     apply (lay_if_ok c b elifs els st st' F1 (Hb F2) (Hc F3)); auto. destruct els; [exact I|apply Ho; exact F4].
   - intros c b Hb HF st st' HC HG HGB. cbn [wfrag_stmt] in HF. apply andb_true_iff in HF. destruct HF as [F1 F2].
     apply (lay_while_ok c b st st' F1 (Hb F2) HC HG HGB).
-  - intros lv a b c d _ HF. discriminate.
+  - intros lv start stop step b Hb HF st st' HC HG HGB. cbn [wfrag_stmt] in HF. destruct lv; [discriminate|].
+    apply andb_true_iff in HF. destruct HF as [HF F4]. apply andb_true_iff in HF. destruct HF as [HF F3].
+    apply andb_true_iff in HF. destruct HF as [F1 F2].
+    apply (lay_forstep_ok start stop step b st st' F1 F2 F3 (Hb F4) HC HG HGB).
   - intros lv t e b _ HF. discriminate.
   - intros _ st st' HC _ _. apply (lay_break_ok st st' HC).
   - intros _ st st' HC _ _. cbn [compile_stmt] in HC. inversion HC; subst.
@@ -989,9 +1768,10 @@ Lemma nb_no_breaks :
   (forall brk s st st' bs seg, LAY brk s st st' bs seg -> nb_stmt s = true -> bs = []) /\
   (forall brk l st st' bs seg, LAYL brk l st st' bs seg -> nb_slist l = true -> bs = []) /\
   (forall brk fin l els st st' End js bs seg, LAYC brk fin l els st st' End js bs seg ->
-     nb_clist l = true -> match els with NoElse => True | Else eb => nb_slist eb = true end -> bs = []).
+     nb_clist l = true -> match els with NoElse => True | Else eb => nb_slist eb = true end -> bs = []) /\
+  (forall b s3 st' S rop seg, LAYR b s3 st' S rop seg -> True).
 Proof.
-  apply LAY_mutind; intros; try reflexivity.
+  apply LAY_mutind; intros; try reflexivity; try exact I.
   - discriminate.
   - cbn [nb_stmt] in H0. apply andb_true_iff in H0. destruct H0 as [H0 F3]. apply andb_true_iff in H0. destruct H0 as [F1 F2].
     apply H; [cbn [nb_clist]; rewrite F1, F2; reflexivity|destruct els; [exact I|exact F3]].
@@ -1000,7 +1780,13 @@ Proof.
   - cbn [nb_clist] in H1. apply andb_true_iff in H1. destruct H1 as [F1 F2]. rewrite (H F1), (H0 F2 H2). reflexivity.
 Qed.
 
-Definition psfrag_stmt (s : stmt) : bool := match s with SDecl _ e => efrag e | _ => wfrag_stmt s && nb_stmt s end.
+Definition psfrag_stmt (s : stmt) : bool :=
+  match s with
+  | SDecl _ e => efrag e
+  | SForStep (Some _) start stop step b => ofrag start && efrag stop && ofrag step && wfrag_slist b
+  | SForIter (Some _) t e b => match t with TStr | TArr | TMap => efrag e && wfrag_slist b | _ => false end
+  | _ => wfrag_stmt s && nb_stmt s
+  end.
 Fixpoint psfrag (p : slist) : bool := match p with SNil => true | SCons s t => psfrag_stmt s && psfrag t end.
 
 Definition STEP (s : stmt) (st st' : cstate) : Prop :=
@@ -1050,16 +1836,215 @@ Proof.
   split; [unfold top_ok; rewrite S; exact HT|]. split; [rewrite S; lia|].
   exists seg, newc. split; [exact C|]. split; [exact K|].
   intros p vs pre post HP HLen HK HI HO HL HIdx HGl HD.
-  assert (HM : mstate_ok (List.length (globals vs)) st env vs).
+  assert (HM : mstate_ok (List.length (globals vs)) st env [] vs).
   { repeat split; auto. intros m y HR. destruct (top_globals st HT m y HR) as [_ HI2]. rewrite S in HIdx. lia. }
-  destruct (proj1 (sim_all fuel) _ s st st' _ seg L _ env env1 false HX p vs pre post HP HLen HK HI HM HSS HSD HD) as (vs' & R & I & (A1 & A2 & A3 & A4 & A5)).
+  destruct (proj1 (sim_all fuel) _ s st st' _ seg L _ env env1 false [] HX p vs pre post HP HLen HK HI HM HSS HSD HD) as (vs' & R & I & (A1 & A2 & A3 & A4 & A5)).
   exists vs'. repeat split; auto. rewrite S. exact A3.
+Qed.
+
+(* `for n := range [start] stop [step]` at top level: n becomes a global *)
+Lemma step_forstep_lv n start stop step b st st' :
+  ofrag start = true -> efrag stop = true -> ofrag step = true -> wfrag_slist b = true ->
+  compile_stmt true (SForStep (Some n) start stop step b) st = COk st' -> top_ok st ->
+  STEP (SForStep (Some n) start stop step b) st st'.
+Proof.
+  intros F1 F2 F3 F4 HC HT fuel env env1 HX. pose proof HT as (HO & HI & HN).
+  pose proof (ofrag_expr step 1 F3) as F3'. pose proof (ofrag_expr start 0 F1) as F1'.
+  destruct fuel as [|f]; [discriminate|]. cbn [exec_s] in HX. cbn [compile_stmt] in HC.
+  set (estep := match step with OSome e => e | ONoneE => ENum 1 end) in *.
+  set (estart := match start with OSome e => e | ONoneE => ENum 0 end) in *.
+  destruct (eval_expr env stop) as [[vstop| | | | | |]|] eqn:HE1; try discriminate.
+  destruct (eval_expr env estep) as [[vstep| | | | | |]|] eqn:HE2; try discriminate.
+  destruct (eval_expr env estart) as [[vstart| | | | | |]|] eqn:HE3; try discriminate.
+  destruct (PrimFloat.eqb vstep 0) eqn:HZ; [discriminate|].
+  destruct (compile_expr true stop st) as [s1|] eqn:E1; [|discriminate]. cbn [bind] in HC.
+  destruct (compile_expr true estep s1) as [s2|] eqn:E2; [|discriminate]. cbn [bind] in HC.
+  destruct (compile_expr true estart s2) as [s3|] eqn:E3; [|discriminate]. cbn [bind] in HC.
+  destruct (efrag_sl _ F2 st s1 E1) as (S1 & o1 & c1 & C1 & K1 & _).
+  destruct (efrag_sl _ F3' s1 s2 E2) as (S2 & o2 & c2 & C2 & K2 & _).
+  destruct (efrag_sl _ F1' s2 s3 E3) as (S3 & o3 & c3 & C3 & K3 & _).
+  assert (HT3 : top_ok s3) by (unfold top_ok; rewrite S3, S2, S1; exact HT).
+  destruct (layrv_ok StepRange 3 n b s3 st' (or_introl (conj eq_refl eq_refl)) (proj1 (proj2 lay_all) b F4) HT3 HC) as (HT' & SG & DR & sg & seg_r & HSG & LR & CR & BR & SR).
+  set (sym' := fst (st_define n (csym s3))) in *. set (y := snd (st_define n (csym s3))) in *.
+  set (sa := {| ccode := (ccode s3 ++ [N_of_opc ONone]) ++ sg; cconsts := cconsts s3; csym := sym'; cbreaks := cbreaks s3 |}) in *.
+  destruct (define_frame n (csym s3)) as (FD1 & FD2 & FD3). fold sym' in FD1, FD2, FD3.
+  assert (KR : exists nr, cconsts st' = cconsts s3 ++ nr).
+  { destruct LR as (stx & stb & bs_b & seg_b & jf & jb & sg0 & _ & Kx & _ & _ & LL & _ & _ & Kb & _).
+    destruct (proj1 (proj2 lay_frame) _ _ _ _ _ _ LL) as [(nb & Knb) _]. exists nb. rewrite Kb, Knb, Kx. reflexivity. }
+  destruct KR as (nr & KR).
+  split; [unfold top_ok; rewrite SR; exact HT'|]. split; [rewrite SR, <- S1, <- S2, <- S3; exact FD3|].
+  exists (encode o1 ++ encode o2 ++ encode o3 ++ [N_of_opc ONone] ++ sg ++ seg_r), (c1 ++ c2 ++ c3 ++ nr).
+  split; [rewrite CR, C3, C2, C1, <- !app_assoc; reflexivity|]. split; [rewrite KR, K3, K2, K1, <- !app_assoc; reflexivity|].
+  intros p vs pre post HP HLen HK HI0 HOs HLs HIdx HGl HD. cbn [sdepth] in HD. fold estep estart in HD.
+  set (G := List.length (globals vs)).
+  destruct (top_static st HT) as [HSS HSD].
+  assert (HIdx0 : index (cur (csym st)) <= N.of_nat G) by (rewrite SR in HIdx; rewrite <- S1, <- S2, <- S3; unfold G; lia).
+  assert (HM : mstate_ok G st env [] vs).
+  { repeat split; auto. intros m ym HR. destruct (top_globals st HT m ym HR) as [_ HI2]. unfold G in HIdx0. lia. }
+  assert (HK3 : consts_of p s3) by (apply (consts_of_prefix p s3 st' nr KR HK)).
+  assert (HK2 : consts_of p s2) by (apply (consts_of_prefix p s2 s3 c3 K3 HK3)).
+  assert (HK1 : consts_of p s1) by (apply (consts_of_prefix p s1 s2 c2 K2 HK2)).
+  set (seg1 := encode o1) in *. set (seg2 := encode o2) in *. set (seg3 := encode o3) in *.
+  pose proof (expr_runs G stop st s1 seg1 env (VNum vstop) [] p vs pre (seg2 ++ seg3 ++ [N_of_opc ONone] ++ sg ++ seg_r ++ post) F2 E1 C1 HE1 HSS
+                ltac:(rewrite HP, <- !app_assoc; reflexivity) HK1 HI0 HM ltac:(cbn [List.length]; lia)) as R1.
+  set (vs1 := {| ip := ip vs + N.of_nat (List.length seg1); ostack := [VNum vstop]; locals := locals vs; globals := globals vs |}) in *.
+  destruct HM as (M1 & M2 & M3 & M4 & M5).
+  assert (HM1 : mstate_ok G s1 env [VNum vstop] vs1).
+  { unfold mstate_ok, vs1; simpl. rewrite S1. repeat split; auto. }
+  assert (HSS1 : sym_static (csym s1)) by (rewrite S1; exact HSS).
+  pose proof (expr_runs G estep s1 s2 seg2 env (VNum vstep) [VNum vstop] p vs1 (pre ++ seg1) (seg3 ++ [N_of_opc ONone] ++ sg ++ seg_r ++ post) F3' E2 C2 HE2 HSS1
+                ltac:(rewrite HP, <- !app_assoc; reflexivity) HK2 ltac:(unfold vs1; simpl; rewrite HI0, app_length; lia) HM1
+                ltac:(cbn [List.length]; lia)) as R2.
+  set (vs2 := {| ip := ip vs1 + N.of_nat (List.length seg2); ostack := [VNum vstep; VNum vstop]; locals := locals vs1; globals := globals vs1 |}) in *.
+  assert (HM2 : mstate_ok G s2 env [VNum vstep; VNum vstop] vs2).
+  { unfold mstate_ok, vs2, vs1; simpl. rewrite S2, S1. repeat split; auto. }
+  assert (HSS2 : sym_static (csym s2)) by (rewrite S2, S1; exact HSS).
+  pose proof (expr_runs G estart s2 s3 seg3 env (VNum vstart) [VNum vstep; VNum vstop] p vs2 (pre ++ seg1 ++ seg2) ([N_of_opc ONone] ++ sg ++ seg_r ++ post) F1' E3 C3 HE3 HSS2
+                ltac:(rewrite HP, <- !app_assoc; reflexivity) HK3 ltac:(unfold vs2, vs1; simpl; rewrite HI0, !app_length; lia) HM2
+                ltac:(cbn [List.length]; lia)) as R3.
+  set (vs3 := {| ip := ip vs2 + N.of_nat (List.length seg3); ostack := [VNum vstart; VNum vstep; VNum vstop]; locals := locals vs2; globals := globals vs2 |}) in *.
+  (* the prologue: OpNone; OpSetGlobal n *)
+  pose proof (step_onone p vs3 (pre ++ seg1 ++ seg2 ++ seg3) (sg ++ seg_r ++ post)
+                ltac:(rewrite HP, <- !app_assoc; reflexivity)
+                ltac:(unfold vs3, vs2, vs1; simpl; rewrite HI0, !app_length; lia)
+                ltac:(unfold vs3, vs2, vs1; simpl; rewrite M2; simpl; lia)) as R4.
+  set (vs4 := {| ip := ip vs3 + 1; ostack := VNone :: ostack vs3; locals := locals vs3; globals := globals vs3 |}) in *.
+  destruct (sym_top_globals _ (proj1 HT') (proj1 (proj2 HT')) _ _ DR) as [_ SI]. cbn [with_sym csym] in SI.
+  assert (HLy : (N.to_nat (sidx y) < List.length (globals vs))%nat) by (rewrite SR in HIdx; lia).
+  pose proof (step_setglobal p vs4 (pre ++ seg1 ++ seg2 ++ seg3 ++ [N_of_opc ONone]) (seg_r ++ post) sg (sidx y) VNone [VNum vstart; VNum vstep; VNum vstop] HSG
+                ltac:(rewrite HP, <- !app_assoc; reflexivity)
+                ltac:(unfold vs4, vs3, vs2, vs1; simpl; rewrite HI0, !app_length; simpl; lia) eq_refl
+                ltac:(unfold vs4, vs3, vs2, vs1; simpl; exact HLy)) as R5.
+  set (vs5 := {| ip := ip vs4 + 3; ostack := [VNum vstart; VNum vstep; VNum vstop]; locals := locals vs4;
+                 globals := set_nth (N.to_nat (sidx y)) VNone (globals vs4) |}) in *.
+  pose proof (jbytes_len _ _ _ HSG) as Lsg.
+  assert (HM5 : mstate_ok G sa (upd env n VNone) [VNum vstart; VNum vstep; VNum vstop] vs5).
+  { unfold mstate_ok, vs5, vs4, vs3, vs2, vs1, sa; cbn [ostack locals globals csym]. repeat split; auto.
+    - apply (store_global env n VNone y (csym st) sym' (globals vs) (proj1 HT') (proj1 (proj2 HT')) DR); auto.
+      intros m Em. unfold sym'. rewrite S3, S2, S1. apply define_resolve_other. intros ->. rewrite str_eqb_refl in Em. discriminate.
+    - intros m ym HRm. rewrite set_nth_length. destruct (sym_top_globals _ (proj1 HT') (proj1 (proj2 HT')) _ _ HRm) as [_ X].
+      cbn [with_sym csym] in X. rewrite SR in HIdx. lia.
+    - rewrite set_nth_length. reflexivity. }
+  destruct (top_static _ HT') as [HSSa HSDa]. cbn [with_sym csym] in HSSa, HSDa.
+  destruct (sim_rv n b y sa st' seg_r LR DR f G (upd env n VNone) env1 false vstart vstep vstop [] HX p vs5
+              (pre ++ seg1 ++ seg2 ++ seg3 ++ [N_of_opc ONone] ++ sg) post) as (vs6 & R6 & I6 & HM6); auto.
+  { rewrite HP, <- !app_assoc. reflexivity. }
+  { unfold sa. cbn [ccode]. rewrite C3, C2, C1. fold seg1 seg2 seg3. rewrite !app_length, HLen. simpl. lia. }
+  { unfold vs5, vs4, vs3, vs2, vs1; cbn [ip]. rewrite HI0, !app_length, Lsg. simpl. lia. }
+  { cbn [List.length]. lia. }
+  { cbn [List.length]. lia. }
+  destruct HM6 as (A1 & A2 & A3 & A4 & A5).
+  exists vs6. split; [|split; [|split; [exact A1|split; [exact A2|split; [exact A5|rewrite SR; exact A3]]]]].
+  - eapply reaches_trans; [exact R1|]. eapply reaches_trans; [exact R2|]. eapply reaches_trans; [exact R3|].
+    eapply reaches_trans; [apply reaches_step; exact R4|]. eapply reaches_trans; [apply reaches_step; exact R5|exact R6].
+  - rewrite I6. unfold vs5, vs4, vs3, vs2, vs1; cbn [ip]. rewrite !app_length, Lsg. simpl. lia.
+Qed.
+
+(* `for n := range iterable` at top level: n becomes a global *)
+Lemma step_foriter_lv n t e b st st' :
+  (t = TStr \/ t = TArr \/ t = TMap) -> efrag e = true -> wfrag_slist b = true ->
+  compile_stmt true (SForIter (Some n) t e b) st = COk st' -> top_ok st ->
+  STEP (SForIter (Some n) t e b) st st'.
+Proof.
+  intros Ht F2 F4 HC HT fuel env env1 HX. pose proof HT as (HO & HI & HN).
+  destruct fuel as [|f]; [discriminate|]. cbn [exec_s] in HX. cbn [compile_stmt] in HC.
+  assert (HC' : compile_expr true e st >>= emit_const true (KNum 0) >>= for_loop true (Some n) IterRange 2 b = COk st')
+    by (destruct Ht as [->|[->| ->]]; exact HC). clear HC.
+  assert (HX' : match eval_expr env e with Some iter => exec_iv f n 0%float iter b (upd env n VNone) | None => None end = Some (env1, false))
+    by (destruct Ht as [->|[->| ->]]; exact HX). clear HX.
+  destruct (eval_expr env e) as [iter|] eqn:HE1; [|discriminate].
+  destruct (compile_expr true e st) as [s1|] eqn:E1; [|discriminate]. cbn [bind] in HC'.
+  destruct (emit_const true (KNum 0) s1) as [s2|] eqn:E2; [|discriminate]. cbn [bind] in HC'.
+  destruct (efrag_sl _ F2 st s1 E1) as (S1 & o1 & c1 & C1 & K1 & _).
+  destruct (const_correct _ _ _ E2) as (S2 & segk & C2 & K2 & D2).
+  assert (HT2 : top_ok s2) by (unfold top_ok; rewrite S2, S1; exact HT).
+  change 2%Z with (Z.of_N 2) in HC'.
+  destruct (layrv_ok IterRange 2 n b s2 st' (or_intror (conj eq_refl eq_refl)) (proj1 (proj2 lay_all) b F4) HT2 HC') as (HT' & SG & DR & sg & seg_r & HSG & LR & CR & BR & SR).
+  set (sym' := fst (st_define n (csym s2))) in *. set (y := snd (st_define n (csym s2))) in *.
+  set (sa := {| ccode := (ccode s2 ++ [N_of_opc ONone]) ++ sg; cconsts := cconsts s2; csym := sym'; cbreaks := cbreaks s2 |}) in *.
+  destruct (define_frame n (csym s2)) as (FD1 & FD2 & FD3). fold sym' in FD1, FD2, FD3.
+  assert (KR : exists nr, cconsts st' = cconsts s2 ++ nr).
+  { destruct LR as (stx & stb & bs_b & seg_b & jf & jb & sg0 & _ & Kx & _ & _ & LL & _ & _ & Kb & _).
+    destruct (proj1 (proj2 lay_frame) _ _ _ _ _ _ LL) as [(nb & Knb) _]. exists nb. rewrite Kb, Knb, Kx. reflexivity. }
+  destruct KR as (nr & KR).
+  split; [unfold top_ok; rewrite SR; exact HT'|]. split; [rewrite SR, <- S1, <- S2; exact FD3|].
+  exists (encode o1 ++ segk ++ [N_of_opc ONone] ++ sg ++ seg_r), (c1 ++ [KNum 0] ++ nr).
+  split; [rewrite CR, C2, C1, <- !app_assoc; reflexivity|]. split; [rewrite KR, K2, K1, <- !app_assoc; reflexivity|].
+  intros p vs pre post HP HLen HK HI0 HOs HLs HIdx HGl HD. cbn [sdepth] in HD.
+  set (G := List.length (globals vs)).
+  destruct (top_static st HT) as [HSS HSD].
+  assert (HIdx0 : index (cur (csym st)) <= N.of_nat G) by (rewrite SR in HIdx; rewrite <- S1, <- S2; unfold G; lia).
+  assert (HM : mstate_ok G st env [] vs).
+  { repeat split; auto. intros m ym HR. destruct (top_globals st HT m ym HR) as [_ HI2]. unfold G in HIdx0. lia. }
+  assert (HK2 : consts_of p s2) by (apply (consts_of_prefix p s2 st' nr KR HK)).
+  assert (HK1 : consts_of p s1) by (apply (consts_of_prefix p s1 s2 [KNum 0] K2 HK2)).
+  set (seg1 := encode o1) in *.
+  pose proof (expr_runs G e st s1 seg1 env iter [] p vs pre (segk ++ [N_of_opc ONone] ++ sg ++ seg_r ++ post) F2 E1 C1 HE1 HSS
+                ltac:(rewrite HP, <- !app_assoc; reflexivity) HK1 HI0 HM ltac:(cbn [List.length]; lia)) as R1.
+  set (vs1 := {| ip := ip vs + N.of_nat (List.length seg1); ostack := [iter]; locals := locals vs; globals := globals vs |}) in *.
+  destruct HM as (M1 & M2 & M3 & M4 & M5).
+  (* the counter: the constant 0 *)
+  destruct HK2 as (more2 & HK2).
+  destruct (D2 p vs1 more2 (pre ++ seg1) ([N_of_opc ONone] ++ sg ++ seg_r ++ post)) as (nk & R2).
+  { rewrite HP, <- !app_assoc. reflexivity. }
+  { exact HK2. }
+  { unfold vs1; simpl. rewrite HI0, app_length. lia. }
+  { unfold vs1; simpl. rewrite M2. simpl. lia. }
+  cbn [const_value] in R2.
+  set (vs2 := {| ip := ip vs1 + N.of_nat (List.length segk); ostack := VNum 0 :: ostack vs1; locals := locals vs1; globals := globals vs1 |}) in *.
+  (* the prologue: OpNone; OpSetGlobal n *)
+  pose proof (step_onone p vs2 (pre ++ seg1 ++ segk) (sg ++ seg_r ++ post)
+                ltac:(rewrite HP, <- !app_assoc; reflexivity)
+                ltac:(unfold vs2, vs1; simpl; rewrite HI0, !app_length; lia)
+                ltac:(unfold vs2, vs1; simpl; rewrite M2; simpl; lia)) as R4.
+  set (vs4 := {| ip := ip vs2 + 1; ostack := VNone :: ostack vs2; locals := locals vs2; globals := globals vs2 |}) in *.
+  destruct (sym_top_globals _ (proj1 HT') (proj1 (proj2 HT')) _ _ DR) as [_ SI]. cbn [with_sym csym] in SI.
+  assert (HLy : (N.to_nat (sidx y) < List.length (globals vs))%nat) by (rewrite SR in HIdx; lia).
+  pose proof (step_setglobal p vs4 (pre ++ seg1 ++ segk ++ [N_of_opc ONone]) (seg_r ++ post) sg (sidx y) VNone [VNum 0; iter] HSG
+                ltac:(rewrite HP, <- !app_assoc; reflexivity)
+                ltac:(unfold vs4, vs2, vs1; cbn [ip]; rewrite HI0, !app_length; simpl; lia) eq_refl
+                ltac:(unfold vs4, vs2, vs1; simpl; exact HLy)) as R5.
+  set (vs5 := {| ip := ip vs4 + 3; ostack := [VNum 0; iter]; locals := locals vs4;
+                 globals := set_nth (N.to_nat (sidx y)) VNone (globals vs4) |}) in *.
+  pose proof (jbytes_len _ _ _ HSG) as Lsg.
+  assert (HM5 : mstate_ok G sa (upd env n VNone) [VNum 0; iter] vs5).
+  { unfold mstate_ok, vs5, vs4, vs2, vs1, sa; cbn [ostack locals globals csym]. repeat split; auto.
+    - apply (store_global env n VNone y (csym st) sym' (globals vs) (proj1 HT') (proj1 (proj2 HT')) DR); auto.
+      intros m Em. unfold sym'. rewrite S2, S1. apply define_resolve_other. intros ->. rewrite str_eqb_refl in Em. discriminate.
+    - intros m ym HRm. rewrite set_nth_length. destruct (sym_top_globals _ (proj1 HT') (proj1 (proj2 HT')) _ _ HRm) as [_ X].
+      cbn [with_sym csym] in X. rewrite SR in HIdx. lia.
+    - rewrite set_nth_length. reflexivity. }
+  destruct (top_static _ HT') as [HSSa HSDa]. cbn [with_sym csym] in HSSa, HSDa.
+  destruct (sim_iv n b y sa st' seg_r LR DR f G (upd env n VNone) env1 false 0%float iter [] HX' p vs5
+              (pre ++ seg1 ++ segk ++ [N_of_opc ONone] ++ sg) post) as (vs6 & R6 & I6 & HM6); auto.
+  { rewrite HP, <- !app_assoc. reflexivity. }
+  { unfold sa. cbn [ccode]. rewrite C2, C1. fold seg1. rewrite !app_length, HLen. simpl. lia. }
+  { unfold vs5, vs4, vs2, vs1; cbn [ip]. rewrite HI0, !app_length, Lsg. simpl. lia. }
+  { cbn [List.length]. lia. }
+  { cbn [List.length]. lia. }
+  destruct HM6 as (A1 & A2 & A3 & A4 & A5).
+  exists vs6. split; [|split; [|split; [exact A1|split; [exact A2|split; [exact A5|rewrite SR; exact A3]]]]].
+  - eapply reaches_trans; [exact R1|]. eapply reaches_trans; [exists nk; exact R2|].
+    eapply reaches_trans; [apply reaches_step; exact R4|]. eapply reaches_trans; [apply reaches_step; exact R5|exact R6].
+  - rewrite I6. unfold vs5, vs4, vs2, vs1; cbn [ip]. rewrite !app_length, Lsg. simpl. lia.
 Qed.
 
 Lemma step_of_stmt s st st' : psfrag_stmt s = true -> compile_stmt true s st = COk st' -> top_ok st -> STEP s st st'.
 Proof.
-  intros HF HC HT. destruct s; try (cbn [psfrag_stmt] in HF; apply andb_true_iff in HF; destruct HF as [F1 F2]; apply step_ctl; assumption).
-  apply (step_decl n e st st' HF HC HT).
+  intros HF HC HT.
+  assert (GEN : wfrag_stmt s && nb_stmt s = true -> STEP s st st').
+  { intro X. apply andb_true_iff in X. destruct X as [X1 X2]. apply step_ctl; assumption. }
+  destruct s; try (apply GEN; exact HF).
+  - apply (step_decl n e st st' HF HC HT).
+  - destruct lv as [n|]; [|apply GEN; exact HF]. cbn [psfrag_stmt] in HF.
+    apply andb_true_iff in HF. destruct HF as [HF F4]. apply andb_true_iff in HF. destruct HF as [HF F3].
+    apply andb_true_iff in HF. destruct HF as [F1 F2].
+    apply (step_forstep_lv n start stop step b st st' F1 F2 F3 F4 HC HT).
+  - destruct lv as [n|]; [|apply GEN; exact HF]. cbn [psfrag_stmt] in HF.
+    assert (Ht : t = TStr \/ t = TArr \/ t = TMap) by (destruct t; try discriminate HF; auto).
+    assert (HF' : efrag e && wfrag_slist b = true) by (destruct t; try discriminate HF; exact HF).
+    apply andb_true_iff in HF'. destruct HF' as [F1 F2].
+    apply (step_foriter_lv n t e b st st' Ht F1 F2 HC HT).
 Qed.
 
 (* compile_correct for programs with control flow: top-level declarations,
